@@ -9,6 +9,12 @@ type nat =
 | O
 | S of nat
 
+(** val option_map : ('a1 -> 'a2) -> 'a1 option -> 'a2 option **)
+
+let option_map f = function
+| Some a -> Some (f a)
+| None -> None
+
 (** val fst : ('a1 * 'a2) -> 'a1 **)
 
 let fst = function
@@ -102,6 +108,28 @@ module Nat =
 
   let ltb n0 m =
     leb (S n0) m
+
+  (** val max : nat -> nat -> nat **)
+
+  let rec max n0 m =
+    match n0 with
+    | O -> m
+    | S n' -> (match m with
+               | O -> n0
+               | S m' -> S (max n' m'))
+
+  (** val even : nat -> bool **)
+
+  let rec even = function
+  | O -> true
+  | S n1 -> (match n1 with
+             | O -> false
+             | S n' -> even n')
+
+  (** val odd : nat -> bool **)
+
+  let odd n0 =
+    negb (even n0)
  end
 
 (** val tl : 'a1 list -> 'a1 list **)
@@ -173,6 +201,12 @@ let rec fold_left f l a0 =
   | [] -> a0
   | b :: t -> fold_left f t (f a0 b)
 
+(** val fold_right : ('a2 -> 'a1 -> 'a1) -> 'a1 -> 'a2 list -> 'a1 **)
+
+let rec fold_right f a0 = function
+| [] -> a0
+| b :: t -> f b (fold_right f a0 t)
+
 (** val existsb : ('a1 -> bool) -> 'a1 list -> bool **)
 
 let rec existsb f = function
@@ -224,6 +258,12 @@ let rec skipn n0 l =
 let rec seq start = function
 | O -> []
 | S len0 -> start :: (seq (S start) len0)
+
+(** val repeat : 'a1 -> nat -> 'a1 list **)
+
+let rec repeat x = function
+| O -> []
+| S k -> x :: (repeat x k)
 
 type positive =
 | XI of positive
@@ -408,10 +448,10 @@ module Coq_Pos =
 
   (** val iter_op : ('a1 -> 'a1 -> 'a1) -> positive -> 'a1 -> 'a1 **)
 
-  let rec iter_op op p a =
+  let rec iter_op op0 p a =
     match p with
-    | XI p0 -> op a (iter_op op p0 (op a a))
-    | XO p0 -> iter_op op p0 (op a a)
+    | XI p0 -> op0 a (iter_op op0 p0 (op0 a a))
+    | XO p0 -> iter_op op0 p0 (op0 a a)
     | XH -> a
 
   (** val to_nat : positive -> nat **)
@@ -1522,6 +1562,22 @@ let conditionalDirectiveKind_is_else = function
 | CDK_Else -> true
 | _ -> false
 
+(** val rawTokenType_is_comment_or_directive : rawTokenType -> bool **)
+
+let rawTokenType_is_comment_or_directive = function
+| RTT_ConditionalDirective _ -> true
+| RTT_CompilerDirective -> true
+| RTT_Comment _ -> true
+| _ -> false
+
+(** val tokenType_is_comment_or_directive : tokenType -> bool **)
+
+let tokenType_is_comment_or_directive = function
+| TT_ConditionalDirective _ -> true
+| TT_CompilerDirective -> true
+| TT_Comment _ -> true
+| _ -> false
+
 (** val tt_of_raw : rawTokenType -> tokenType **)
 
 let tt_of_raw = function
@@ -1618,13 +1674,13 @@ let has_break ws =
 (** val emit_ws : rsettings -> bool -> ftoken -> bytes **)
 
 let emit_ws rs must_break = function
-| (tok, f) ->
-  let eof = is_eof tok.t_ty in
+| (tok0, f) ->
+  let eof = is_eof tok0.t_ty in
   if f.f_ignored
   then app
-         (if (&&) ((&&) must_break (negb (has_break tok.t_ws))) (negb eof)
+         (if (&&) ((&&) must_break (negb (has_break tok0.t_ws))) (negb eof)
           then rs.rs_newline
-          else []) tok.t_ws
+          else []) tok0.t_ws
   else let nls =
          if (&&) ((&&) must_break (N.eqb f.f_nl N0)) (negb eof)
          then Npos XH
@@ -1650,17 +1706,17 @@ let reconstruct rs l =
 
 (** val set_content : token -> bytes -> token **)
 
-let set_content tok c =
-  { t_ws = []; t_content = c; t_ty = tok.t_ty }
+let set_content tok0 c =
+  { t_ws = []; t_content = c; t_ty = tok0.t_ty }
 
 (** val lowercase_tok : ftoken -> ftoken **)
 
 let lowercase_tok p = match p with
-| (tok, f) ->
+| (tok0, f) ->
   if f.f_ignored
   then p
-  else if (&&) (is_keyword tok.t_ty) (existsb is_upper tok.t_content)
-       then ((set_content tok (lower tok.t_content)), f)
+  else if (&&) (is_keyword tok0.t_ty) (existsb is_upper tok0.t_content)
+       then ((set_content tok0 (lower tok0.t_content)), f)
        else p
 
 (** val lowercase_keywords : ftoken list -> ftoken list **)
@@ -1853,28 +1909,28 @@ let format_compiler_directive content =
 (** val comment_tok : (bytes -> bool) -> ftoken -> ftoken **)
 
 let comment_tok alnum p = match p with
-| (tok, f) ->
+| (tok0, f) ->
   if f.f_ignored
   then p
   else let r =
-         match tok.t_ty with
+         match tok0.t_ty with
          | TT_Op _ -> None
          | TT_Identifier -> None
          | TT_Keyword _ -> None
          | TT_TextLiteral _ -> None
          | TT_NumberLiteral _ -> None
          | TT_ConditionalDirective _ ->
-           format_compiler_directive tok.t_content
-         | TT_CompilerDirective -> format_compiler_directive tok.t_content
+           format_compiler_directive tok0.t_content
+         | TT_CompilerDirective -> format_compiler_directive tok0.t_content
          | TT_Comment k ->
            (match k with
-            | CoK_InlineLine -> format_line_comment alnum tok.t_content
-            | CoK_IndividualLine -> format_line_comment alnum tok.t_content
+            | CoK_InlineLine -> format_line_comment alnum tok0.t_content
+            | CoK_IndividualLine -> format_line_comment alnum tok0.t_content
             | _ -> None)
          | _ -> None
        in
        (match r with
-        | Some c -> ((set_content tok c), f)
+        | Some c -> ((set_content tok0 c), f)
         | None -> p)
 
 (** val comment_formatter : (bytes -> bool) -> ftoken list -> ftoken list **)
@@ -1888,9 +1944,9 @@ let eof_newline_once l =
   match rev l with
   | [] -> l
   | f0 :: r ->
-    let (tok, f) = f0 in
-    if is_eof tok.t_ty
-    then app (rev r) ((tok, { f_ignored = f.f_ignored; f_nl = (Npos XH);
+    let (tok0, f) = f0 in
+    if is_eof tok0.t_ty
+    then app (rev r) ((tok0, { f_ignored = f.f_ignored; f_nl = (Npos XH);
            f_ind = N0; f_cont = N0; f_sp = N0 }) :: [])
     else l
 
@@ -1996,8 +2052,9 @@ let parse_toggle content =
 
 let rec toggle_marks ignored = function
 | [] -> []
-| tok :: r ->
-  let t = if is_comment tok.t_ty then parse_toggle tok.t_content else None in
+| tok0 :: r ->
+  let t = if is_comment tok0.t_ty then parse_toggle tok0.t_content else None
+  in
   let ignored' =
     match t with
     | Some t0 -> (match t0 with
@@ -2076,13 +2133,13 @@ let eof_canon l =
   match rev l with
   | [] -> false
   | f0 :: _ ->
-    let (tok, f) = f0 in
+    let (tok0, f) = f0 in
     (&&)
       ((&&)
         ((&&)
-          ((&&) ((&&) (is_eof tok.t_ty) (N.eqb f.f_nl (Npos XH)))
+          ((&&) ((&&) (is_eof tok0.t_ty) (N.eqb f.f_nl (Npos XH)))
             (N.eqb f.f_ind N0)) (N.eqb f.f_cont N0)) (N.eqb f.f_sp N0))
-      (match tok.t_content with
+      (match tok0.t_content with
        | [] -> true
        | _ :: _ -> false)
 
@@ -2529,9 +2586,9 @@ let nl_len rs =
 (** val nonbreaking_ws_len : rsettings -> ftoken -> n * bool **)
 
 let nonbreaking_ws_len rs = function
-| (tok, f) ->
+| (tok0, f) ->
   if f.f_ignored
-  then let ws = tok.t_ws in
+  then let ws = tok0.t_ws in
        (match rfind_lf ws with
         | Some pos -> ((N.sub (blen ws) (N.add pos (Npos XH))), true)
         | None -> ((blen ws), false))
@@ -2541,9 +2598,9 @@ let nonbreaking_ws_len rs = function
 (** val ws_len : rsettings -> ftoken -> n **)
 
 let ws_len rs p = match p with
-| (tok, f) ->
+| (tok0, f) ->
   if f.f_ignored
-  then blen tok.t_ws
+  then blen tok0.t_ws
   else N.add (fst (nonbreaking_ws_len rs p)) (N.mul f.f_nl (nl_len rs))
 
 (** val col_back_post : rsettings -> ftoken list -> n **)
@@ -2980,6 +3037,2393 @@ let eof_line_ok tys lines =
       match l.ll_type with
       | LLT_Eof -> true
       | _ -> negb (existsb (fun i -> Nat.eqb (S i) n0) l.ll_toks)) lines)
+
+(** val kEYWORDS_gen : (n list * rawTokenType) list **)
+
+let kEYWORDS_gen =
+  (((Npos (XI (XO (XO (XO (XO (XI XH))))))) :: ((Npos (XO (XI (XO (XO (XO (XI
+    XH))))))) :: ((Npos (XI (XI (XO (XO (XI (XI XH))))))) :: ((Npos (XI (XI
+    (XI (XI (XO (XI XH))))))) :: ((Npos (XO (XO (XI (XI (XO (XI
+    XH))))))) :: ((Npos (XI (XO (XI (XO (XI (XI XH))))))) :: ((Npos (XO (XO
+    (XI (XO (XI (XI XH))))))) :: ((Npos (XI (XO (XI (XO (XO (XI
+    XH))))))) :: [])))))))), (RTT_IdentifierOrKeyword
+    KK_Absolute)) :: ((((Npos (XI (XO (XO (XO (XO (XI XH))))))) :: ((Npos (XO
+    (XI (XO (XO (XO (XI XH))))))) :: ((Npos (XI (XI (XO (XO (XI (XI
+    XH))))))) :: ((Npos (XO (XO (XI (XO (XI (XI XH))))))) :: ((Npos (XO (XI
+    (XO (XO (XI (XI XH))))))) :: ((Npos (XI (XO (XO (XO (XO (XI
+    XH))))))) :: ((Npos (XI (XI (XO (XO (XO (XI XH))))))) :: ((Npos (XO (XO
+    (XI (XO (XI (XI XH))))))) :: [])))))))), (RTT_IdentifierOrKeyword
+    KK_Abstract)) :: ((((Npos (XI (XO (XO (XO (XO (XI XH))))))) :: ((Npos (XO
+    (XO (XI (XI (XO (XI XH))))))) :: ((Npos (XI (XO (XO (XI (XO (XI
+    XH))))))) :: ((Npos (XI (XI (XI (XO (XO (XI XH))))))) :: ((Npos (XO (XI
+    (XI (XI (XO (XI XH))))))) :: []))))), (RTT_IdentifierOrKeyword
+    KK_Align)) :: ((((Npos (XI (XO (XO (XO (XO (XI XH))))))) :: ((Npos (XO
+    (XI (XI (XI (XO (XI XH))))))) :: ((Npos (XO (XO (XI (XO (XO (XI
+    XH))))))) :: []))), (RTT_Keyword KK_And)) :: ((((Npos (XI (XO (XO (XO (XO
+    (XI XH))))))) :: ((Npos (XO (XI (XO (XO (XI (XI XH))))))) :: ((Npos (XO
+    (XI (XO (XO (XI (XI XH))))))) :: ((Npos (XI (XO (XO (XO (XO (XI
+    XH))))))) :: ((Npos (XI (XO (XO (XI (XI (XI XH))))))) :: []))))),
+    (RTT_Keyword KK_Array)) :: ((((Npos (XI (XO (XO (XO (XO (XI
+    XH))))))) :: ((Npos (XI (XI (XO (XO (XI (XI XH))))))) :: [])),
+    (RTT_Keyword KK_As)) :: ((((Npos (XI (XO (XO (XO (XO (XI
+    XH))))))) :: ((Npos (XI (XI (XO (XO (XI (XI XH))))))) :: ((Npos (XI (XO
+    (XI (XI (XO (XI XH))))))) :: []))), (RTT_Keyword KK_Asm)) :: ((((Npos (XI
+    (XO (XO (XO (XO (XI XH))))))) :: ((Npos (XI (XI (XO (XO (XI (XI
+    XH))))))) :: ((Npos (XI (XI (XO (XO (XI (XI XH))))))) :: ((Npos (XI (XO
+    (XI (XO (XO (XI XH))))))) :: ((Npos (XI (XO (XI (XI (XO (XI
+    XH))))))) :: ((Npos (XO (XI (XO (XO (XO (XI XH))))))) :: ((Npos (XO (XO
+    (XI (XI (XO (XI XH))))))) :: ((Npos (XI (XO (XI (XO (XO (XI
+    XH))))))) :: ((Npos (XO (XI (XO (XO (XI (XI XH))))))) :: []))))))))),
+    (RTT_IdentifierOrKeyword KK_Assembler)) :: ((((Npos (XI (XO (XO (XO (XO
+    (XI XH))))))) :: ((Npos (XO (XO (XI (XO (XI (XI XH))))))) :: [])),
+    (RTT_IdentifierOrKeyword KK_At)) :: ((((Npos (XI (XO (XO (XO (XO (XI
+    XH))))))) :: ((Npos (XI (XO (XI (XO (XI (XI XH))))))) :: ((Npos (XO (XO
+    (XI (XO (XI (XI XH))))))) :: ((Npos (XI (XI (XI (XI (XO (XI
+    XH))))))) :: ((Npos (XI (XO (XI (XI (XO (XI XH))))))) :: ((Npos (XI (XO
+    (XO (XO (XO (XI XH))))))) :: ((Npos (XO (XO (XI (XO (XI (XI
+    XH))))))) :: ((Npos (XI (XO (XI (XO (XO (XI XH))))))) :: ((Npos (XO (XO
+    (XI (XO (XO (XI XH))))))) :: []))))))))), (RTT_IdentifierOrKeyword
+    KK_Automated)) :: ((((Npos (XO (XI (XO (XO (XO (XI XH))))))) :: ((Npos
+    (XI (XO (XI (XO (XO (XI XH))))))) :: ((Npos (XI (XI (XI (XO (XO (XI
+    XH))))))) :: ((Npos (XI (XO (XO (XI (XO (XI XH))))))) :: ((Npos (XO (XI
+    (XI (XI (XO (XI XH))))))) :: []))))), (RTT_Keyword KK_Begin)) :: ((((Npos
+    (XI (XI (XO (XO (XO (XI XH))))))) :: ((Npos (XI (XO (XO (XO (XO (XI
+    XH))))))) :: ((Npos (XI (XI (XO (XO (XI (XI XH))))))) :: ((Npos (XI (XO
+    (XI (XO (XO (XI XH))))))) :: [])))), (RTT_Keyword KK_Case)) :: ((((Npos
+    (XI (XI (XO (XO (XO (XI XH))))))) :: ((Npos (XO (XO (XI (XO (XO (XI
+    XH))))))) :: ((Npos (XI (XO (XI (XO (XO (XI XH))))))) :: ((Npos (XI (XI
+    (XO (XO (XO (XI XH))))))) :: ((Npos (XO (XO (XI (XI (XO (XI
+    XH))))))) :: []))))), (RTT_IdentifierOrKeyword KK_Cdecl)) :: ((((Npos (XI
+    (XI (XO (XO (XO (XI XH))))))) :: ((Npos (XO (XO (XI (XI (XO (XI
+    XH))))))) :: ((Npos (XI (XO (XO (XO (XO (XI XH))))))) :: ((Npos (XI (XI
+    (XO (XO (XI (XI XH))))))) :: ((Npos (XI (XI (XO (XO (XI (XI
+    XH))))))) :: []))))), (RTT_Keyword KK_Class)) :: ((((Npos (XI (XI (XO (XO
+    (XO (XI XH))))))) :: ((Npos (XI (XI (XI (XI (XO (XI XH))))))) :: ((Npos
+    (XO (XI (XI (XI (XO (XI XH))))))) :: ((Npos (XI (XI (XO (XO (XI (XI
+    XH))))))) :: ((Npos (XO (XO (XI (XO (XI (XI XH))))))) :: []))))),
+    (RTT_Keyword (KK_Const DK_Other))) :: ((((Npos (XI (XI (XO (XO (XO (XI
+    XH))))))) :: ((Npos (XI (XI (XI (XI (XO (XI XH))))))) :: ((Npos (XO (XI
+    (XI (XI (XO (XI XH))))))) :: ((Npos (XI (XI (XO (XO (XI (XI
+    XH))))))) :: ((Npos (XO (XO (XI (XO (XI (XI XH))))))) :: ((Npos (XO (XI
+    (XO (XO (XI (XI XH))))))) :: ((Npos (XI (XO (XI (XO (XI (XI
+    XH))))))) :: ((Npos (XI (XI (XO (XO (XO (XI XH))))))) :: ((Npos (XO (XO
+    (XI (XO (XI (XI XH))))))) :: ((Npos (XI (XI (XI (XI (XO (XI
+    XH))))))) :: ((Npos (XO (XI (XO (XO (XI (XI XH))))))) :: []))))))))))),
+    (RTT_Keyword KK_Constructor)) :: ((((Npos (XI (XI (XO (XO (XO (XI
+    XH))))))) :: ((Npos (XI (XI (XI (XI (XO (XI XH))))))) :: ((Npos (XO (XI
+    (XI (XI (XO (XI XH))))))) :: ((Npos (XO (XO (XI (XO (XI (XI
+    XH))))))) :: ((Npos (XI (XO (XO (XO (XO (XI XH))))))) :: ((Npos (XI (XO
+    (XO (XI (XO (XI XH))))))) :: ((Npos (XO (XI (XI (XI (XO (XI
+    XH))))))) :: ((Npos (XI (XI (XO (XO (XI (XI XH))))))) :: [])))))))),
+    (RTT_IdentifierOrKeyword KK_Contains)) :: ((((Npos (XO (XO (XI (XO (XO
+    (XI XH))))))) :: ((Npos (XI (XO (XI (XO (XO (XI XH))))))) :: ((Npos (XO
+    (XI (XI (XO (XO (XI XH))))))) :: ((Npos (XI (XO (XO (XO (XO (XI
+    XH))))))) :: ((Npos (XI (XO (XI (XO (XI (XI XH))))))) :: ((Npos (XO (XO
+    (XI (XI (XO (XI XH))))))) :: ((Npos (XO (XO (XI (XO (XI (XI
+    XH))))))) :: []))))))), (RTT_IdentifierOrKeyword KK_Default)) :: ((((Npos
+    (XO (XO (XI (XO (XO (XI XH))))))) :: ((Npos (XI (XO (XI (XO (XO (XI
+    XH))))))) :: ((Npos (XO (XO (XI (XI (XO (XI XH))))))) :: ((Npos (XI (XO
+    (XO (XO (XO (XI XH))))))) :: ((Npos (XI (XO (XO (XI (XI (XI
+    XH))))))) :: ((Npos (XI (XO (XI (XO (XO (XI XH))))))) :: ((Npos (XO (XO
+    (XI (XO (XO (XI XH))))))) :: []))))))), (RTT_IdentifierOrKeyword
+    KK_Delayed)) :: ((((Npos (XO (XO (XI (XO (XO (XI XH))))))) :: ((Npos (XI
+    (XO (XI (XO (XO (XI XH))))))) :: ((Npos (XO (XO (XO (XO (XI (XI
+    XH))))))) :: ((Npos (XO (XI (XO (XO (XI (XI XH))))))) :: ((Npos (XI (XO
+    (XI (XO (XO (XI XH))))))) :: ((Npos (XI (XI (XO (XO (XO (XI
+    XH))))))) :: ((Npos (XI (XO (XO (XO (XO (XI XH))))))) :: ((Npos (XO (XO
+    (XI (XO (XI (XI XH))))))) :: ((Npos (XI (XO (XI (XO (XO (XI
+    XH))))))) :: ((Npos (XO (XO (XI (XO (XO (XI XH))))))) :: [])))))))))),
+    (RTT_IdentifierOrKeyword KK_Deprecated)) :: ((((Npos (XO (XO (XI (XO (XO
+    (XI XH))))))) :: ((Npos (XI (XO (XI (XO (XO (XI XH))))))) :: ((Npos (XI
+    (XI (XO (XO (XI (XI XH))))))) :: ((Npos (XO (XO (XI (XO (XI (XI
+    XH))))))) :: ((Npos (XO (XI (XO (XO (XI (XI XH))))))) :: ((Npos (XI (XO
+    (XI (XO (XI (XI XH))))))) :: ((Npos (XI (XI (XO (XO (XO (XI
+    XH))))))) :: ((Npos (XO (XO (XI (XO (XI (XI XH))))))) :: ((Npos (XI (XI
+    (XI (XI (XO (XI XH))))))) :: ((Npos (XO (XI (XO (XO (XI (XI
+    XH))))))) :: [])))))))))), (RTT_Keyword KK_Destructor)) :: ((((Npos (XO
+    (XO (XI (XO (XO (XI XH))))))) :: ((Npos (XI (XO (XO (XI (XO (XI
+    XH))))))) :: ((Npos (XI (XI (XO (XO (XI (XI XH))))))) :: ((Npos (XO (XO
+    (XO (XO (XI (XI XH))))))) :: ((Npos (XI (XO (XO (XI (XO (XI
+    XH))))))) :: ((Npos (XO (XO (XI (XO (XO (XI XH))))))) :: [])))))),
+    (RTT_IdentifierOrKeyword KK_DispId)) :: ((((Npos (XO (XO (XI (XO (XO (XI
+    XH))))))) :: ((Npos (XI (XO (XO (XI (XO (XI XH))))))) :: ((Npos (XI (XI
+    (XO (XO (XI (XI XH))))))) :: ((Npos (XO (XO (XO (XO (XI (XI
+    XH))))))) :: ((Npos (XI (XO (XO (XI (XO (XI XH))))))) :: ((Npos (XO (XI
+    (XI (XI (XO (XI XH))))))) :: ((Npos (XO (XO (XI (XO (XI (XI
+    XH))))))) :: ((Npos (XI (XO (XI (XO (XO (XI XH))))))) :: ((Npos (XO (XI
+    (XO (XO (XI (XI XH))))))) :: ((Npos (XO (XI (XI (XO (XO (XI
+    XH))))))) :: ((Npos (XI (XO (XO (XO (XO (XI XH))))))) :: ((Npos (XI (XI
+    (XO (XO (XO (XI XH))))))) :: ((Npos (XI (XO (XI (XO (XO (XI
+    XH))))))) :: []))))))))))))), (RTT_Keyword KK_DispInterface)) :: ((((Npos
+    (XO (XO (XI (XO (XO (XI XH))))))) :: ((Npos (XI (XO (XO (XI (XO (XI
+    XH))))))) :: ((Npos (XO (XI (XI (XO (XI (XI XH))))))) :: []))),
+    (RTT_Keyword KK_Div)) :: ((((Npos (XO (XO (XI (XO (XO (XI
+    XH))))))) :: ((Npos (XI (XI (XI (XI (XO (XI XH))))))) :: [])),
+    (RTT_Keyword KK_Do)) :: ((((Npos (XO (XO (XI (XO (XO (XI
+    XH))))))) :: ((Npos (XI (XI (XI (XI (XO (XI XH))))))) :: ((Npos (XI (XI
+    (XI (XO (XI (XI XH))))))) :: ((Npos (XO (XI (XI (XI (XO (XI
+    XH))))))) :: ((Npos (XO (XO (XI (XO (XI (XI XH))))))) :: ((Npos (XI (XI
+    (XI (XI (XO (XI XH))))))) :: [])))))), (RTT_Keyword
+    KK_Downto)) :: ((((Npos (XO (XO (XI (XO (XO (XI XH))))))) :: ((Npos (XI
+    (XO (XO (XI (XI (XI XH))))))) :: ((Npos (XO (XI (XI (XI (XO (XI
+    XH))))))) :: ((Npos (XI (XO (XO (XO (XO (XI XH))))))) :: ((Npos (XI (XO
+    (XI (XI (XO (XI XH))))))) :: ((Npos (XI (XO (XO (XI (XO (XI
+    XH))))))) :: ((Npos (XI (XI (XO (XO (XO (XI XH))))))) :: []))))))),
+    (RTT_IdentifierOrKeyword KK_Dynamic)) :: ((((Npos (XI (XO (XI (XO (XO (XI
+    XH))))))) :: ((Npos (XO (XO (XI (XI (XO (XI XH))))))) :: ((Npos (XI (XI
+    (XO (XO (XI (XI XH))))))) :: ((Npos (XI (XO (XI (XO (XO (XI
+    XH))))))) :: [])))), (RTT_Keyword KK_Else)) :: ((((Npos (XI (XO (XI (XO
+    (XO (XI XH))))))) :: ((Npos (XO (XI (XI (XI (XO (XI XH))))))) :: ((Npos
+    (XO (XO (XI (XO (XO (XI XH))))))) :: []))), (RTT_Keyword
+    KK_End)) :: ((((Npos (XI (XO (XI (XO (XO (XI XH))))))) :: ((Npos (XO (XO
+    (XO (XI (XI (XI XH))))))) :: ((Npos (XI (XI (XO (XO (XO (XI
+    XH))))))) :: ((Npos (XI (XO (XI (XO (XO (XI XH))))))) :: ((Npos (XO (XO
+    (XO (XO (XI (XI XH))))))) :: ((Npos (XO (XO (XI (XO (XI (XI
+    XH))))))) :: [])))))), (RTT_Keyword KK_Except)) :: ((((Npos (XI (XO (XI
+    (XO (XO (XI XH))))))) :: ((Npos (XO (XO (XO (XI (XI (XI
+    XH))))))) :: ((Npos (XO (XO (XO (XO (XI (XI XH))))))) :: ((Npos (XI (XO
+    (XI (XO (XO (XI XH))))))) :: ((Npos (XO (XI (XO (XO (XI (XI
+    XH))))))) :: ((Npos (XI (XO (XO (XI (XO (XI XH))))))) :: ((Npos (XI (XO
+    (XI (XI (XO (XI XH))))))) :: ((Npos (XI (XO (XI (XO (XO (XI
+    XH))))))) :: ((Npos (XO (XI (XI (XI (XO (XI XH))))))) :: ((Npos (XO (XO
+    (XI (XO (XI (XI XH))))))) :: ((Npos (XI (XO (XO (XO (XO (XI
+    XH))))))) :: ((Npos (XO (XO (XI (XI (XO (XI XH))))))) :: [])))))))))))),
+    (RTT_IdentifierOrKeyword KK_Experimental)) :: ((((Npos (XI (XO (XI (XO
+    (XO (XI XH))))))) :: ((Npos (XO (XO (XO (XI (XI (XI XH))))))) :: ((Npos
+    (XO (XO (XO (XO (XI (XI XH))))))) :: ((Npos (XI (XI (XI (XI (XO (XI
+    XH))))))) :: ((Npos (XO (XI (XO (XO (XI (XI XH))))))) :: ((Npos (XO (XO
+    (XI (XO (XI (XI XH))))))) :: [])))))), (RTT_IdentifierOrKeyword
+    KK_Export)) :: ((((Npos (XI (XO (XI (XO (XO (XI XH))))))) :: ((Npos (XO
+    (XO (XO (XI (XI (XI XH))))))) :: ((Npos (XO (XO (XO (XO (XI (XI
+    XH))))))) :: ((Npos (XI (XI (XI (XI (XO (XI XH))))))) :: ((Npos (XO (XI
+    (XO (XO (XI (XI XH))))))) :: ((Npos (XO (XO (XI (XO (XI (XI
+    XH))))))) :: ((Npos (XI (XI (XO (XO (XI (XI XH))))))) :: []))))))),
+    (RTT_Keyword KK_Exports)) :: ((((Npos (XI (XO (XI (XO (XO (XI
+    XH))))))) :: ((Npos (XO (XO (XO (XI (XI (XI XH))))))) :: ((Npos (XO (XO
+    (XI (XO (XI (XI XH))))))) :: ((Npos (XI (XO (XI (XO (XO (XI
+    XH))))))) :: ((Npos (XO (XI (XO (XO (XI (XI XH))))))) :: ((Npos (XO (XI
+    (XI (XI (XO (XI XH))))))) :: ((Npos (XI (XO (XO (XO (XO (XI
+    XH))))))) :: ((Npos (XO (XO (XI (XI (XO (XI XH))))))) :: [])))))))),
+    (RTT_IdentifierOrKeyword KK_External)) :: ((((Npos (XO (XI (XI (XO (XO
+    (XI XH))))))) :: ((Npos (XI (XO (XO (XO (XO (XI XH))))))) :: ((Npos (XO
+    (XI (XO (XO (XI (XI XH))))))) :: []))), (RTT_IdentifierOrKeyword
+    KK_Far)) :: ((((Npos (XO (XI (XI (XO (XO (XI XH))))))) :: ((Npos (XI (XO
+    (XO (XI (XO (XI XH))))))) :: ((Npos (XO (XO (XI (XI (XO (XI
+    XH))))))) :: ((Npos (XI (XO (XI (XO (XO (XI XH))))))) :: [])))),
+    (RTT_Keyword KK_File)) :: ((((Npos (XO (XI (XI (XO (XO (XI
+    XH))))))) :: ((Npos (XI (XO (XO (XI (XO (XI XH))))))) :: ((Npos (XO (XI
+    (XI (XI (XO (XI XH))))))) :: ((Npos (XI (XO (XO (XO (XO (XI
+    XH))))))) :: ((Npos (XO (XO (XI (XI (XO (XI XH))))))) :: []))))),
+    (RTT_IdentifierOrKeyword KK_Final)) :: ((((Npos (XO (XI (XI (XO (XO (XI
+    XH))))))) :: ((Npos (XI (XO (XO (XI (XO (XI XH))))))) :: ((Npos (XO (XI
+    (XI (XI (XO (XI XH))))))) :: ((Npos (XI (XO (XO (XO (XO (XI
+    XH))))))) :: ((Npos (XO (XO (XI (XI (XO (XI XH))))))) :: ((Npos (XI (XO
+    (XO (XI (XO (XI XH))))))) :: ((Npos (XO (XI (XO (XI (XI (XI
+    XH))))))) :: ((Npos (XI (XO (XO (XO (XO (XI XH))))))) :: ((Npos (XO (XO
+    (XI (XO (XI (XI XH))))))) :: ((Npos (XI (XO (XO (XI (XO (XI
+    XH))))))) :: ((Npos (XI (XI (XI (XI (XO (XI XH))))))) :: ((Npos (XO (XI
+    (XI (XI (XO (XI XH))))))) :: [])))))))))))), (RTT_Keyword
+    KK_Finalization)) :: ((((Npos (XO (XI (XI (XO (XO (XI XH))))))) :: ((Npos
+    (XI (XO (XO (XI (XO (XI XH))))))) :: ((Npos (XO (XI (XI (XI (XO (XI
+    XH))))))) :: ((Npos (XI (XO (XO (XO (XO (XI XH))))))) :: ((Npos (XO (XO
+    (XI (XI (XO (XI XH))))))) :: ((Npos (XO (XO (XI (XI (XO (XI
+    XH))))))) :: ((Npos (XI (XO (XO (XI (XI (XI XH))))))) :: []))))))),
+    (RTT_Keyword KK_Finally)) :: ((((Npos (XO (XI (XI (XO (XO (XI
+    XH))))))) :: ((Npos (XI (XI (XI (XI (XO (XI XH))))))) :: ((Npos (XO (XI
+    (XO (XO (XI (XI XH))))))) :: []))), (RTT_Keyword KK_For)) :: ((((Npos (XO
+    (XI (XI (XO (XO (XI XH))))))) :: ((Npos (XI (XI (XI (XI (XO (XI
+    XH))))))) :: ((Npos (XO (XI (XO (XO (XI (XI XH))))))) :: ((Npos (XI (XI
+    (XI (XO (XI (XI XH))))))) :: ((Npos (XI (XO (XO (XO (XO (XI
+    XH))))))) :: ((Npos (XO (XI (XO (XO (XI (XI XH))))))) :: ((Npos (XO (XO
+    (XI (XO (XO (XI XH))))))) :: []))))))), (RTT_IdentifierOrKeyword
+    KK_Forward)) :: ((((Npos (XO (XI (XI (XO (XO (XI XH))))))) :: ((Npos (XI
+    (XO (XI (XO (XI (XI XH))))))) :: ((Npos (XO (XI (XI (XI (XO (XI
+    XH))))))) :: ((Npos (XI (XI (XO (XO (XO (XI XH))))))) :: ((Npos (XO (XO
+    (XI (XO (XI (XI XH))))))) :: ((Npos (XI (XO (XO (XI (XO (XI
+    XH))))))) :: ((Npos (XI (XI (XI (XI (XO (XI XH))))))) :: ((Npos (XO (XI
+    (XI (XI (XO (XI XH))))))) :: [])))))))), (RTT_Keyword
+    KK_Function)) :: ((((Npos (XI (XI (XI (XO (XO (XI XH))))))) :: ((Npos (XI
+    (XI (XI (XI (XO (XI XH))))))) :: ((Npos (XO (XO (XI (XO (XI (XI
+    XH))))))) :: ((Npos (XI (XI (XI (XI (XO (XI XH))))))) :: [])))),
+    (RTT_Keyword KK_Goto)) :: ((((Npos (XO (XO (XO (XI (XO (XI
+    XH))))))) :: ((Npos (XI (XO (XI (XO (XO (XI XH))))))) :: ((Npos (XO (XO
+    (XI (XI (XO (XI XH))))))) :: ((Npos (XO (XO (XO (XO (XI (XI
+    XH))))))) :: ((Npos (XI (XO (XI (XO (XO (XI XH))))))) :: ((Npos (XO (XI
+    (XO (XO (XI (XI XH))))))) :: [])))))), (RTT_IdentifierOrKeyword
+    KK_Helper)) :: ((((Npos (XI (XO (XO (XI (XO (XI XH))))))) :: ((Npos (XO
+    (XI (XI (XO (XO (XI XH))))))) :: [])), (RTT_Keyword KK_If)) :: ((((Npos
+    (XI (XO (XO (XI (XO (XI XH))))))) :: ((Npos (XI (XO (XI (XI (XO (XI
+    XH))))))) :: ((Npos (XO (XO (XO (XO (XI (XI XH))))))) :: ((Npos (XO (XO
+    (XI (XI (XO (XI XH))))))) :: ((Npos (XI (XO (XI (XO (XO (XI
+    XH))))))) :: ((Npos (XI (XO (XI (XI (XO (XI XH))))))) :: ((Npos (XI (XO
+    (XI (XO (XO (XI XH))))))) :: ((Npos (XO (XI (XI (XI (XO (XI
+    XH))))))) :: ((Npos (XO (XO (XI (XO (XI (XI XH))))))) :: ((Npos (XI (XO
+    (XO (XO (XO (XI XH))))))) :: ((Npos (XO (XO (XI (XO (XI (XI
+    XH))))))) :: ((Npos (XI (XO (XO (XI (XO (XI XH))))))) :: ((Npos (XI (XI
+    (XI (XI (XO (XI XH))))))) :: ((Npos (XO (XI (XI (XI (XO (XI
+    XH))))))) :: [])))))))))))))), (RTT_Keyword
+    KK_Implementation)) :: ((((Npos (XI (XO (XO (XI (XO (XI
+    XH))))))) :: ((Npos (XI (XO (XI (XI (XO (XI XH))))))) :: ((Npos (XO (XO
+    (XO (XO (XI (XI XH))))))) :: ((Npos (XO (XO (XI (XI (XO (XI
+    XH))))))) :: ((Npos (XI (XO (XI (XO (XO (XI XH))))))) :: ((Npos (XI (XO
+    (XI (XI (XO (XI XH))))))) :: ((Npos (XI (XO (XI (XO (XO (XI
+    XH))))))) :: ((Npos (XO (XI (XI (XI (XO (XI XH))))))) :: ((Npos (XO (XO
+    (XI (XO (XI (XI XH))))))) :: ((Npos (XI (XI (XO (XO (XI (XI
+    XH))))))) :: [])))))))))), (RTT_IdentifierOrKeyword
+    KK_Implements)) :: ((((Npos (XI (XO (XO (XI (XO (XI XH))))))) :: ((Npos
+    (XO (XI (XI (XI (XO (XI XH))))))) :: [])), (RTT_Keyword (KK_In
+    IK_Op))) :: ((((Npos (XI (XO (XO (XI (XO (XI XH))))))) :: ((Npos (XO (XI
+    (XI (XI (XO (XI XH))))))) :: ((Npos (XO (XO (XI (XO (XO (XI
+    XH))))))) :: ((Npos (XI (XO (XI (XO (XO (XI XH))))))) :: ((Npos (XO (XO
+    (XO (XI (XI (XI XH))))))) :: []))))), (RTT_IdentifierOrKeyword
+    KK_Index)) :: ((((Npos (XI (XO (XO (XI (XO (XI XH))))))) :: ((Npos (XO
+    (XI (XI (XI (XO (XI XH))))))) :: ((Npos (XO (XO (XO (XI (XO (XI
+    XH))))))) :: ((Npos (XI (XO (XI (XO (XO (XI XH))))))) :: ((Npos (XO (XI
+    (XO (XO (XI (XI XH))))))) :: ((Npos (XI (XO (XO (XI (XO (XI
+    XH))))))) :: ((Npos (XO (XO (XI (XO (XI (XI XH))))))) :: ((Npos (XI (XO
+    (XI (XO (XO (XI XH))))))) :: ((Npos (XO (XO (XI (XO (XO (XI
+    XH))))))) :: []))))))))), (RTT_Keyword KK_Inherited)) :: ((((Npos (XI (XO
+    (XO (XI (XO (XI XH))))))) :: ((Npos (XO (XI (XI (XI (XO (XI
+    XH))))))) :: ((Npos (XI (XO (XO (XI (XO (XI XH))))))) :: ((Npos (XO (XO
+    (XI (XO (XI (XI XH))))))) :: ((Npos (XI (XO (XO (XI (XO (XI
+    XH))))))) :: ((Npos (XI (XO (XO (XO (XO (XI XH))))))) :: ((Npos (XO (XO
+    (XI (XI (XO (XI XH))))))) :: ((Npos (XI (XO (XO (XI (XO (XI
+    XH))))))) :: ((Npos (XO (XI (XO (XI (XI (XI XH))))))) :: ((Npos (XI (XO
+    (XO (XO (XO (XI XH))))))) :: ((Npos (XO (XO (XI (XO (XI (XI
+    XH))))))) :: ((Npos (XI (XO (XO (XI (XO (XI XH))))))) :: ((Npos (XI (XI
+    (XI (XI (XO (XI XH))))))) :: ((Npos (XO (XI (XI (XI (XO (XI
+    XH))))))) :: [])))))))))))))), (RTT_Keyword
+    KK_Initialization)) :: ((((Npos (XI (XO (XO (XI (XO (XI
+    XH))))))) :: ((Npos (XO (XI (XI (XI (XO (XI XH))))))) :: ((Npos (XO (XO
+    (XI (XI (XO (XI XH))))))) :: ((Npos (XI (XO (XO (XI (XO (XI
+    XH))))))) :: ((Npos (XO (XI (XI (XI (XO (XI XH))))))) :: ((Npos (XI (XO
+    (XI (XO (XO (XI XH))))))) :: [])))))), (RTT_Keyword
+    KK_Inline)) :: ((((Npos (XI (XO (XO (XI (XO (XI XH))))))) :: ((Npos (XO
+    (XI (XI (XI (XO (XI XH))))))) :: ((Npos (XO (XO (XI (XO (XI (XI
+    XH))))))) :: ((Npos (XI (XO (XI (XO (XO (XI XH))))))) :: ((Npos (XO (XI
+    (XO (XO (XI (XI XH))))))) :: ((Npos (XO (XI (XI (XO (XO (XI
+    XH))))))) :: ((Npos (XI (XO (XO (XO (XO (XI XH))))))) :: ((Npos (XI (XI
+    (XO (XO (XO (XI XH))))))) :: ((Npos (XI (XO (XI (XO (XO (XI
+    XH))))))) :: []))))))))), (RTT_Keyword KK_Interface)) :: ((((Npos (XI (XO
+    (XO (XI (XO (XI XH))))))) :: ((Npos (XI (XI (XO (XO (XI (XI
+    XH))))))) :: [])), (RTT_Keyword KK_Is)) :: ((((Npos (XO (XO (XI (XI (XO
+    (XI XH))))))) :: ((Npos (XI (XO (XO (XO (XO (XI XH))))))) :: ((Npos (XO
+    (XI (XO (XO (XO (XI XH))))))) :: ((Npos (XI (XO (XI (XO (XO (XI
+    XH))))))) :: ((Npos (XO (XO (XI (XI (XO (XI XH))))))) :: []))))),
+    (RTT_Keyword KK_Label)) :: ((((Npos (XO (XO (XI (XI (XO (XI
+    XH))))))) :: ((Npos (XI (XO (XO (XI (XO (XI XH))))))) :: ((Npos (XO (XI
+    (XO (XO (XO (XI XH))))))) :: ((Npos (XO (XI (XO (XO (XI (XI
+    XH))))))) :: ((Npos (XI (XO (XO (XO (XO (XI XH))))))) :: ((Npos (XO (XI
+    (XO (XO (XI (XI XH))))))) :: ((Npos (XI (XO (XO (XI (XI (XI
+    XH))))))) :: []))))))), (RTT_Keyword KK_Library)) :: ((((Npos (XO (XO (XI
+    (XI (XO (XI XH))))))) :: ((Npos (XI (XI (XI (XI (XO (XI
+    XH))))))) :: ((Npos (XI (XI (XO (XO (XO (XI XH))))))) :: ((Npos (XI (XO
+    (XO (XO (XO (XI XH))))))) :: ((Npos (XO (XO (XI (XI (XO (XI
+    XH))))))) :: []))))), (RTT_IdentifierOrKeyword KK_Local)) :: ((((Npos (XI
+    (XO (XI (XI (XO (XI XH))))))) :: ((Npos (XI (XO (XI (XO (XO (XI
+    XH))))))) :: ((Npos (XI (XI (XO (XO (XI (XI XH))))))) :: ((Npos (XI (XI
+    (XO (XO (XI (XI XH))))))) :: ((Npos (XI (XO (XO (XO (XO (XI
+    XH))))))) :: ((Npos (XI (XI (XI (XO (XO (XI XH))))))) :: ((Npos (XI (XO
+    (XI (XO (XO (XI XH))))))) :: []))))))), (RTT_IdentifierOrKeyword
+    KK_Message)) :: ((((Npos (XI (XO (XI (XI (XO (XI XH))))))) :: ((Npos (XI
+    (XI (XI (XI (XO (XI XH))))))) :: ((Npos (XO (XO (XI (XO (XO (XI
+    XH))))))) :: []))), (RTT_Keyword KK_Mod)) :: ((((Npos (XO (XI (XI (XI (XO
+    (XI XH))))))) :: ((Npos (XI (XO (XO (XO (XO (XI XH))))))) :: ((Npos (XI
+    (XO (XI (XI (XO (XI XH))))))) :: ((Npos (XI (XO (XI (XO (XO (XI
+    XH))))))) :: [])))), (RTT_IdentifierOrKeyword KK_Name)) :: ((((Npos (XO
+    (XI (XI (XI (XO (XI XH))))))) :: ((Npos (XI (XO (XI (XO (XO (XI
+    XH))))))) :: ((Npos (XI (XO (XO (XO (XO (XI XH))))))) :: ((Npos (XO (XI
+    (XO (XO (XI (XI XH))))))) :: [])))), (RTT_IdentifierOrKeyword
+    KK_Near)) :: ((((Npos (XO (XI (XI (XI (XO (XI XH))))))) :: ((Npos (XI (XO
+    (XO (XI (XO (XI XH))))))) :: ((Npos (XO (XO (XI (XI (XO (XI
+    XH))))))) :: []))), (RTT_Keyword KK_Nil)) :: ((((Npos (XO (XI (XI (XI (XO
+    (XI XH))))))) :: ((Npos (XI (XI (XI (XI (XO (XI XH))))))) :: ((Npos (XO
+    (XO (XI (XO (XO (XI XH))))))) :: ((Npos (XI (XO (XI (XO (XO (XI
+    XH))))))) :: ((Npos (XO (XI (XI (XO (XO (XI XH))))))) :: ((Npos (XI (XO
+    (XO (XO (XO (XI XH))))))) :: ((Npos (XI (XO (XI (XO (XI (XI
+    XH))))))) :: ((Npos (XO (XO (XI (XI (XO (XI XH))))))) :: ((Npos (XO (XO
+    (XI (XO (XI (XI XH))))))) :: []))))))))), (RTT_IdentifierOrKeyword
+    KK_NoDefault)) :: ((((Npos (XO (XI (XI (XI (XO (XI XH))))))) :: ((Npos
+    (XI (XI (XI (XI (XO (XI XH))))))) :: ((Npos (XO (XO (XI (XO (XI (XI
+    XH))))))) :: []))), (RTT_Keyword KK_Not)) :: ((((Npos (XI (XI (XI (XI (XO
+    (XI XH))))))) :: ((Npos (XO (XI (XO (XO (XO (XI XH))))))) :: ((Npos (XO
+    (XI (XO (XI (XO (XI XH))))))) :: ((Npos (XI (XO (XI (XO (XO (XI
+    XH))))))) :: ((Npos (XI (XI (XO (XO (XO (XI XH))))))) :: ((Npos (XO (XO
+    (XI (XO (XI (XI XH))))))) :: [])))))), (RTT_Keyword
+    KK_Object)) :: ((((Npos (XI (XI (XI (XI (XO (XI XH))))))) :: ((Npos (XO
+    (XI (XI (XO (XO (XI XH))))))) :: [])), (RTT_Keyword KK_Of)) :: ((((Npos
+    (XI (XI (XI (XI (XO (XI XH))))))) :: ((Npos (XO (XI (XI (XI (XO (XI
+    XH))))))) :: [])), (RTT_IdentifierOrKeyword KK_On)) :: ((((Npos (XI (XI
+    (XI (XI (XO (XI XH))))))) :: ((Npos (XO (XO (XO (XO (XI (XI
+    XH))))))) :: ((Npos (XI (XO (XI (XO (XO (XI XH))))))) :: ((Npos (XO (XI
+    (XO (XO (XI (XI XH))))))) :: ((Npos (XI (XO (XO (XO (XO (XI
+    XH))))))) :: ((Npos (XO (XO (XI (XO (XI (XI XH))))))) :: ((Npos (XI (XI
+    (XI (XI (XO (XI XH))))))) :: ((Npos (XO (XI (XO (XO (XI (XI
+    XH))))))) :: [])))))))), (RTT_IdentifierOrKeyword
+    KK_Operator)) :: ((((Npos (XI (XI (XI (XI (XO (XI XH))))))) :: ((Npos (XO
+    (XI (XO (XO (XI (XI XH))))))) :: [])), (RTT_Keyword KK_Or)) :: ((((Npos
+    (XI (XI (XI (XI (XO (XI XH))))))) :: ((Npos (XI (XO (XI (XO (XI (XI
+    XH))))))) :: ((Npos (XO (XO (XI (XO (XI (XI XH))))))) :: []))),
+    (RTT_IdentifierOrKeyword KK_Out)) :: ((((Npos (XI (XI (XI (XI (XO (XI
+    XH))))))) :: ((Npos (XO (XI (XI (XO (XI (XI XH))))))) :: ((Npos (XI (XO
+    (XI (XO (XO (XI XH))))))) :: ((Npos (XO (XI (XO (XO (XI (XI
+    XH))))))) :: ((Npos (XO (XO (XI (XI (XO (XI XH))))))) :: ((Npos (XI (XI
+    (XI (XI (XO (XI XH))))))) :: ((Npos (XI (XO (XO (XO (XO (XI
+    XH))))))) :: ((Npos (XO (XO (XI (XO (XO (XI XH))))))) :: [])))))))),
+    (RTT_IdentifierOrKeyword KK_Overload)) :: ((((Npos (XI (XI (XI (XI (XO
+    (XI XH))))))) :: ((Npos (XO (XI (XI (XO (XI (XI XH))))))) :: ((Npos (XI
+    (XO (XI (XO (XO (XI XH))))))) :: ((Npos (XO (XI (XO (XO (XI (XI
+    XH))))))) :: ((Npos (XO (XI (XO (XO (XI (XI XH))))))) :: ((Npos (XI (XO
+    (XO (XI (XO (XI XH))))))) :: ((Npos (XO (XO (XI (XO (XO (XI
+    XH))))))) :: ((Npos (XI (XO (XI (XO (XO (XI XH))))))) :: [])))))))),
+    (RTT_IdentifierOrKeyword KK_Override)) :: ((((Npos (XO (XO (XO (XO (XI
+    (XI XH))))))) :: ((Npos (XI (XO (XO (XO (XO (XI XH))))))) :: ((Npos (XI
+    (XI (XO (XO (XO (XI XH))))))) :: ((Npos (XI (XI (XO (XI (XO (XI
+    XH))))))) :: ((Npos (XI (XO (XO (XO (XO (XI XH))))))) :: ((Npos (XI (XI
+    (XI (XO (XO (XI XH))))))) :: ((Npos (XI (XO (XI (XO (XO (XI
+    XH))))))) :: []))))))), (RTT_IdentifierOrKeyword KK_Package)) :: ((((Npos
+    (XO (XO (XO (XO (XI (XI XH))))))) :: ((Npos (XI (XO (XO (XO (XO (XI
+    XH))))))) :: ((Npos (XI (XI (XO (XO (XO (XI XH))))))) :: ((Npos (XI (XI
+    (XO (XI (XO (XI XH))))))) :: ((Npos (XI (XO (XI (XO (XO (XI
+    XH))))))) :: ((Npos (XO (XO (XI (XO (XO (XI XH))))))) :: [])))))),
+    (RTT_Keyword KK_Packed)) :: ((((Npos (XO (XO (XO (XO (XI (XI
+    XH))))))) :: ((Npos (XI (XO (XO (XO (XO (XI XH))))))) :: ((Npos (XI (XI
+    (XO (XO (XI (XI XH))))))) :: ((Npos (XI (XI (XO (XO (XO (XI
+    XH))))))) :: ((Npos (XI (XO (XO (XO (XO (XI XH))))))) :: ((Npos (XO (XO
+    (XI (XI (XO (XI XH))))))) :: [])))))), (RTT_IdentifierOrKeyword
+    KK_Pascal)) :: ((((Npos (XO (XO (XO (XO (XI (XI XH))))))) :: ((Npos (XO
+    (XO (XI (XI (XO (XI XH))))))) :: ((Npos (XI (XO (XO (XO (XO (XI
+    XH))))))) :: ((Npos (XO (XO (XI (XO (XI (XI XH))))))) :: ((Npos (XO (XI
+    (XI (XO (XO (XI XH))))))) :: ((Npos (XI (XI (XI (XI (XO (XI
+    XH))))))) :: ((Npos (XO (XI (XO (XO (XI (XI XH))))))) :: ((Npos (XI (XO
+    (XI (XI (XO (XI XH))))))) :: [])))))))), (RTT_IdentifierOrKeyword
+    KK_Platform)) :: ((((Npos (XO (XO (XO (XO (XI (XI XH))))))) :: ((Npos (XO
+    (XI (XO (XO (XI (XI XH))))))) :: ((Npos (XI (XO (XO (XI (XO (XI
+    XH))))))) :: ((Npos (XO (XI (XI (XO (XI (XI XH))))))) :: ((Npos (XI (XO
+    (XO (XO (XO (XI XH))))))) :: ((Npos (XO (XO (XI (XO (XI (XI
+    XH))))))) :: ((Npos (XI (XO (XI (XO (XO (XI XH))))))) :: []))))))),
+    (RTT_IdentifierOrKeyword KK_Private)) :: ((((Npos (XO (XO (XO (XO (XI (XI
+    XH))))))) :: ((Npos (XO (XI (XO (XO (XI (XI XH))))))) :: ((Npos (XI (XI
+    (XI (XI (XO (XI XH))))))) :: ((Npos (XI (XI (XO (XO (XO (XI
+    XH))))))) :: ((Npos (XI (XO (XI (XO (XO (XI XH))))))) :: ((Npos (XO (XO
+    (XI (XO (XO (XI XH))))))) :: ((Npos (XI (XO (XI (XO (XI (XI
+    XH))))))) :: ((Npos (XO (XI (XO (XO (XI (XI XH))))))) :: ((Npos (XI (XO
+    (XI (XO (XO (XI XH))))))) :: []))))))))), (RTT_Keyword
+    KK_Procedure)) :: ((((Npos (XO (XO (XO (XO (XI (XI XH))))))) :: ((Npos
+    (XO (XI (XO (XO (XI (XI XH))))))) :: ((Npos (XI (XI (XI (XI (XO (XI
+    XH))))))) :: ((Npos (XI (XI (XI (XO (XO (XI XH))))))) :: ((Npos (XO (XI
+    (XO (XO (XI (XI XH))))))) :: ((Npos (XI (XO (XO (XO (XO (XI
+    XH))))))) :: ((Npos (XI (XO (XI (XI (XO (XI XH))))))) :: []))))))),
+    (RTT_Keyword KK_Program)) :: ((((Npos (XO (XO (XO (XO (XI (XI
+    XH))))))) :: ((Npos (XO (XI (XO (XO (XI (XI XH))))))) :: ((Npos (XI (XI
+    (XI (XI (XO (XI XH))))))) :: ((Npos (XO (XO (XO (XO (XI (XI
+    XH))))))) :: ((Npos (XI (XO (XI (XO (XO (XI XH))))))) :: ((Npos (XO (XI
+    (XO (XO (XI (XI XH))))))) :: ((Npos (XO (XO (XI (XO (XI (XI
+    XH))))))) :: ((Npos (XI (XO (XO (XI (XI (XI XH))))))) :: [])))))))),
+    (RTT_Keyword KK_Property)) :: ((((Npos (XO (XO (XO (XO (XI (XI
+    XH))))))) :: ((Npos (XO (XI (XO (XO (XI (XI XH))))))) :: ((Npos (XI (XI
+    (XI (XI (XO (XI XH))))))) :: ((Npos (XO (XO (XI (XO (XI (XI
+    XH))))))) :: ((Npos (XI (XO (XI (XO (XO (XI XH))))))) :: ((Npos (XI (XI
+    (XO (XO (XO (XI XH))))))) :: ((Npos (XO (XO (XI (XO (XI (XI
+    XH))))))) :: ((Npos (XI (XO (XI (XO (XO (XI XH))))))) :: ((Npos (XO (XO
+    (XI (XO (XO (XI XH))))))) :: []))))))))), (RTT_IdentifierOrKeyword
+    KK_Protected)) :: ((((Npos (XO (XO (XO (XO (XI (XI XH))))))) :: ((Npos
+    (XI (XO (XI (XO (XI (XI XH))))))) :: ((Npos (XO (XI (XO (XO (XO (XI
+    XH))))))) :: ((Npos (XO (XO (XI (XI (XO (XI XH))))))) :: ((Npos (XI (XO
+    (XO (XI (XO (XI XH))))))) :: ((Npos (XI (XI (XO (XO (XO (XI
+    XH))))))) :: [])))))), (RTT_IdentifierOrKeyword KK_Public)) :: ((((Npos
+    (XO (XO (XO (XO (XI (XI XH))))))) :: ((Npos (XI (XO (XI (XO (XI (XI
+    XH))))))) :: ((Npos (XO (XI (XO (XO (XO (XI XH))))))) :: ((Npos (XO (XO
+    (XI (XI (XO (XI XH))))))) :: ((Npos (XI (XO (XO (XI (XO (XI
+    XH))))))) :: ((Npos (XI (XI (XO (XO (XI (XI XH))))))) :: ((Npos (XO (XO
+    (XO (XI (XO (XI XH))))))) :: ((Npos (XI (XO (XI (XO (XO (XI
+    XH))))))) :: ((Npos (XO (XO (XI (XO (XO (XI XH))))))) :: []))))))))),
+    (RTT_IdentifierOrKeyword KK_Published)) :: ((((Npos (XO (XI (XO (XO (XI
+    (XI XH))))))) :: ((Npos (XI (XO (XO (XO (XO (XI XH))))))) :: ((Npos (XI
+    (XO (XO (XI (XO (XI XH))))))) :: ((Npos (XI (XI (XO (XO (XI (XI
+    XH))))))) :: ((Npos (XI (XO (XI (XO (XO (XI XH))))))) :: []))))),
+    (RTT_Keyword KK_Raise)) :: ((((Npos (XO (XI (XO (XO (XI (XI
+    XH))))))) :: ((Npos (XI (XO (XI (XO (XO (XI XH))))))) :: ((Npos (XI (XO
+    (XO (XO (XO (XI XH))))))) :: ((Npos (XO (XO (XI (XO (XO (XI
+    XH))))))) :: [])))), (RTT_IdentifierOrKeyword KK_Read)) :: ((((Npos (XO
+    (XI (XO (XO (XI (XI XH))))))) :: ((Npos (XI (XO (XI (XO (XO (XI
+    XH))))))) :: ((Npos (XI (XO (XO (XO (XO (XI XH))))))) :: ((Npos (XO (XO
+    (XI (XO (XO (XI XH))))))) :: ((Npos (XI (XI (XI (XI (XO (XI
+    XH))))))) :: ((Npos (XO (XI (XI (XI (XO (XI XH))))))) :: ((Npos (XO (XO
+    (XI (XI (XO (XI XH))))))) :: ((Npos (XI (XO (XO (XI (XI (XI
+    XH))))))) :: [])))))))), (RTT_IdentifierOrKeyword
+    KK_ReadOnly)) :: ((((Npos (XO (XI (XO (XO (XI (XI XH))))))) :: ((Npos (XI
+    (XO (XI (XO (XO (XI XH))))))) :: ((Npos (XI (XI (XO (XO (XO (XI
+    XH))))))) :: ((Npos (XI (XI (XI (XI (XO (XI XH))))))) :: ((Npos (XO (XI
+    (XO (XO (XI (XI XH))))))) :: ((Npos (XO (XO (XI (XO (XO (XI
+    XH))))))) :: [])))))), (RTT_Keyword KK_Record)) :: ((((Npos (XO (XI (XO
+    (XO (XI (XI XH))))))) :: ((Npos (XI (XO (XI (XO (XO (XI
+    XH))))))) :: ((Npos (XO (XI (XI (XO (XO (XI XH))))))) :: ((Npos (XI (XO
+    (XI (XO (XO (XI XH))))))) :: ((Npos (XO (XI (XO (XO (XI (XI
+    XH))))))) :: ((Npos (XI (XO (XI (XO (XO (XI XH))))))) :: ((Npos (XO (XI
+    (XI (XI (XO (XI XH))))))) :: ((Npos (XI (XI (XO (XO (XO (XI
+    XH))))))) :: ((Npos (XI (XO (XI (XO (XO (XI XH))))))) :: []))))))))),
+    (RTT_IdentifierOrKeyword KK_Reference)) :: ((((Npos (XO (XI (XO (XO (XI
+    (XI XH))))))) :: ((Npos (XI (XO (XI (XO (XO (XI XH))))))) :: ((Npos (XI
+    (XI (XI (XO (XO (XI XH))))))) :: ((Npos (XI (XO (XO (XI (XO (XI
+    XH))))))) :: ((Npos (XI (XI (XO (XO (XI (XI XH))))))) :: ((Npos (XO (XO
+    (XI (XO (XI (XI XH))))))) :: ((Npos (XI (XO (XI (XO (XO (XI
+    XH))))))) :: ((Npos (XO (XI (XO (XO (XI (XI XH))))))) :: [])))))))),
+    (RTT_IdentifierOrKeyword KK_Register)) :: ((((Npos (XO (XI (XO (XO (XI
+    (XI XH))))))) :: ((Npos (XI (XO (XI (XO (XO (XI XH))))))) :: ((Npos (XI
+    (XO (XO (XI (XO (XI XH))))))) :: ((Npos (XO (XI (XI (XI (XO (XI
+    XH))))))) :: ((Npos (XO (XO (XI (XO (XI (XI XH))))))) :: ((Npos (XO (XI
+    (XO (XO (XI (XI XH))))))) :: ((Npos (XI (XI (XI (XI (XO (XI
+    XH))))))) :: ((Npos (XO (XO (XI (XO (XO (XI XH))))))) :: ((Npos (XI (XO
+    (XI (XO (XI (XI XH))))))) :: ((Npos (XI (XI (XO (XO (XO (XI
+    XH))))))) :: ((Npos (XI (XO (XI (XO (XO (XI XH))))))) :: []))))))))))),
+    (RTT_IdentifierOrKeyword KK_Reintroduce)) :: ((((Npos (XO (XI (XO (XO (XI
+    (XI XH))))))) :: ((Npos (XI (XO (XI (XO (XO (XI XH))))))) :: ((Npos (XO
+    (XO (XO (XO (XI (XI XH))))))) :: ((Npos (XI (XO (XI (XO (XO (XI
+    XH))))))) :: ((Npos (XI (XO (XO (XO (XO (XI XH))))))) :: ((Npos (XO (XO
+    (XI (XO (XI (XI XH))))))) :: [])))))), (RTT_Keyword
+    KK_Repeat)) :: ((((Npos (XO (XI (XO (XO (XI (XI XH))))))) :: ((Npos (XI
+    (XO (XI (XO (XO (XI XH))))))) :: ((Npos (XI (XO (XO (XO (XI (XI
+    XH))))))) :: ((Npos (XI (XO (XI (XO (XI (XI XH))))))) :: ((Npos (XI (XO
+    (XO (XI (XO (XI XH))))))) :: ((Npos (XO (XI (XO (XO (XI (XI
+    XH))))))) :: ((Npos (XI (XO (XI (XO (XO (XI XH))))))) :: ((Npos (XI (XI
+    (XO (XO (XI (XI XH))))))) :: [])))))))), (RTT_IdentifierOrKeyword
+    KK_Requires)) :: ((((Npos (XO (XI (XO (XO (XI (XI XH))))))) :: ((Npos (XI
+    (XO (XI (XO (XO (XI XH))))))) :: ((Npos (XI (XI (XO (XO (XI (XI
+    XH))))))) :: ((Npos (XI (XO (XO (XI (XO (XI XH))))))) :: ((Npos (XO (XO
+    (XI (XO (XO (XI XH))))))) :: ((Npos (XI (XO (XI (XO (XO (XI
+    XH))))))) :: ((Npos (XO (XI (XI (XI (XO (XI XH))))))) :: ((Npos (XO (XO
+    (XI (XO (XI (XI XH))))))) :: [])))))))), (RTT_IdentifierOrKeyword
+    KK_Resident)) :: ((((Npos (XO (XI (XO (XO (XI (XI XH))))))) :: ((Npos (XI
+    (XO (XI (XO (XO (XI XH))))))) :: ((Npos (XI (XI (XO (XO (XI (XI
+    XH))))))) :: ((Npos (XI (XI (XI (XI (XO (XI XH))))))) :: ((Npos (XI (XO
+    (XI (XO (XI (XI XH))))))) :: ((Npos (XO (XI (XO (XO (XI (XI
+    XH))))))) :: ((Npos (XI (XI (XO (XO (XO (XI XH))))))) :: ((Npos (XI (XO
+    (XI (XO (XO (XI XH))))))) :: ((Npos (XI (XI (XO (XO (XI (XI
+    XH))))))) :: ((Npos (XO (XO (XI (XO (XI (XI XH))))))) :: ((Npos (XO (XI
+    (XO (XO (XI (XI XH))))))) :: ((Npos (XI (XO (XO (XI (XO (XI
+    XH))))))) :: ((Npos (XO (XI (XI (XI (XO (XI XH))))))) :: ((Npos (XI (XI
+    (XI (XO (XO (XI XH))))))) :: [])))))))))))))), (RTT_Keyword
+    KK_ResourceString)) :: ((((Npos (XI (XI (XO (XO (XI (XI
+    XH))))))) :: ((Npos (XI (XO (XO (XO (XO (XI XH))))))) :: ((Npos (XO (XI
+    (XI (XO (XO (XI XH))))))) :: ((Npos (XI (XO (XI (XO (XO (XI
+    XH))))))) :: ((Npos (XI (XI (XO (XO (XO (XI XH))))))) :: ((Npos (XI (XO
+    (XO (XO (XO (XI XH))))))) :: ((Npos (XO (XO (XI (XI (XO (XI
+    XH))))))) :: ((Npos (XO (XO (XI (XI (XO (XI XH))))))) :: [])))))))),
+    (RTT_IdentifierOrKeyword KK_SafeCall)) :: ((((Npos (XI (XI (XO (XO (XI
+    (XI XH))))))) :: ((Npos (XI (XO (XI (XO (XO (XI XH))))))) :: ((Npos (XI
+    (XO (XO (XO (XO (XI XH))))))) :: ((Npos (XO (XO (XI (XI (XO (XI
+    XH))))))) :: ((Npos (XI (XO (XI (XO (XO (XI XH))))))) :: ((Npos (XO (XO
+    (XI (XO (XO (XI XH))))))) :: [])))))), (RTT_IdentifierOrKeyword
+    KK_Sealed)) :: ((((Npos (XI (XI (XO (XO (XI (XI XH))))))) :: ((Npos (XI
+    (XO (XI (XO (XO (XI XH))))))) :: ((Npos (XO (XO (XI (XO (XI (XI
+    XH))))))) :: []))), (RTT_Keyword KK_Set)) :: ((((Npos (XI (XI (XO (XO (XI
+    (XI XH))))))) :: ((Npos (XO (XO (XO (XI (XO (XI XH))))))) :: ((Npos (XO
+    (XO (XI (XI (XO (XI XH))))))) :: []))), (RTT_Keyword KK_Shl)) :: ((((Npos
+    (XI (XI (XO (XO (XI (XI XH))))))) :: ((Npos (XO (XO (XO (XI (XO (XI
+    XH))))))) :: ((Npos (XO (XI (XO (XO (XI (XI XH))))))) :: []))),
+    (RTT_Keyword KK_Shr)) :: ((((Npos (XI (XI (XO (XO (XI (XI
+    XH))))))) :: ((Npos (XO (XO (XI (XO (XI (XI XH))))))) :: ((Npos (XI (XO
+    (XO (XO (XO (XI XH))))))) :: ((Npos (XO (XO (XI (XO (XI (XI
+    XH))))))) :: ((Npos (XI (XO (XO (XI (XO (XI XH))))))) :: ((Npos (XI (XI
+    (XO (XO (XO (XI XH))))))) :: [])))))), (RTT_IdentifierOrKeyword
+    KK_Static)) :: ((((Npos (XI (XI (XO (XO (XI (XI XH))))))) :: ((Npos (XO
+    (XO (XI (XO (XI (XI XH))))))) :: ((Npos (XO (XO (XI (XO (XO (XI
+    XH))))))) :: ((Npos (XI (XI (XO (XO (XO (XI XH))))))) :: ((Npos (XI (XO
+    (XO (XO (XO (XI XH))))))) :: ((Npos (XO (XO (XI (XI (XO (XI
+    XH))))))) :: ((Npos (XO (XO (XI (XI (XO (XI XH))))))) :: []))))))),
+    (RTT_IdentifierOrKeyword KK_StdCall)) :: ((((Npos (XI (XI (XO (XO (XI (XI
+    XH))))))) :: ((Npos (XO (XO (XI (XO (XI (XI XH))))))) :: ((Npos (XI (XI
+    (XI (XI (XO (XI XH))))))) :: ((Npos (XO (XI (XO (XO (XI (XI
+    XH))))))) :: ((Npos (XI (XO (XI (XO (XO (XI XH))))))) :: ((Npos (XO (XO
+    (XI (XO (XO (XI XH))))))) :: [])))))), (RTT_IdentifierOrKeyword
+    KK_Stored)) :: ((((Npos (XI (XI (XO (XO (XI (XI XH))))))) :: ((Npos (XO
+    (XO (XI (XO (XI (XI XH))))))) :: ((Npos (XO (XI (XO (XO (XI (XI
+    XH))))))) :: ((Npos (XI (XO (XO (XI (XO (XI XH))))))) :: ((Npos (XI (XI
+    (XO (XO (XO (XI XH))))))) :: ((Npos (XO (XO (XI (XO (XI (XI
+    XH))))))) :: [])))))), (RTT_IdentifierOrKeyword KK_Strict)) :: ((((Npos
+    (XI (XI (XO (XO (XI (XI XH))))))) :: ((Npos (XO (XO (XI (XO (XI (XI
+    XH))))))) :: ((Npos (XO (XI (XO (XO (XI (XI XH))))))) :: ((Npos (XI (XO
+    (XO (XI (XO (XI XH))))))) :: ((Npos (XO (XI (XI (XI (XO (XI
+    XH))))))) :: ((Npos (XI (XI (XI (XO (XO (XI XH))))))) :: [])))))),
+    (RTT_Keyword KK_String)) :: ((((Npos (XO (XO (XI (XO (XI (XI
+    XH))))))) :: ((Npos (XO (XO (XO (XI (XO (XI XH))))))) :: ((Npos (XI (XO
+    (XI (XO (XO (XI XH))))))) :: ((Npos (XO (XI (XI (XI (XO (XI
+    XH))))))) :: [])))), (RTT_Keyword KK_Then)) :: ((((Npos (XO (XO (XI (XO
+    (XI (XI XH))))))) :: ((Npos (XO (XO (XO (XI (XO (XI XH))))))) :: ((Npos
+    (XO (XI (XO (XO (XI (XI XH))))))) :: ((Npos (XI (XO (XI (XO (XO (XI
+    XH))))))) :: ((Npos (XI (XO (XO (XO (XO (XI XH))))))) :: ((Npos (XO (XO
+    (XI (XO (XO (XI XH))))))) :: ((Npos (XO (XI (XI (XO (XI (XI
+    XH))))))) :: ((Npos (XI (XO (XO (XO (XO (XI XH))))))) :: ((Npos (XO (XI
+    (XO (XO (XI (XI XH))))))) :: []))))))))), (RTT_Keyword
+    KK_ThreadVar)) :: ((((Npos (XO (XO (XI (XO (XI (XI XH))))))) :: ((Npos
+    (XI (XI (XI (XI (XO (XI XH))))))) :: [])), (RTT_Keyword
+    KK_To)) :: ((((Npos (XO (XO (XI (XO (XI (XI XH))))))) :: ((Npos (XO (XI
+    (XO (XO (XI (XI XH))))))) :: ((Npos (XI (XO (XO (XI (XI (XI
+    XH))))))) :: []))), (RTT_Keyword KK_Try)) :: ((((Npos (XO (XO (XI (XO (XI
+    (XI XH))))))) :: ((Npos (XI (XO (XO (XI (XI (XI XH))))))) :: ((Npos (XO
+    (XO (XO (XO (XI (XI XH))))))) :: ((Npos (XI (XO (XI (XO (XO (XI
+    XH))))))) :: [])))), (RTT_Keyword KK_Type)) :: ((((Npos (XI (XO (XI (XO
+    (XI (XI XH))))))) :: ((Npos (XO (XI (XI (XI (XO (XI XH))))))) :: ((Npos
+    (XI (XO (XO (XI (XO (XI XH))))))) :: ((Npos (XO (XO (XI (XO (XI (XI
+    XH))))))) :: [])))), (RTT_Keyword KK_Unit)) :: ((((Npos (XI (XO (XI (XO
+    (XI (XI XH))))))) :: ((Npos (XO (XI (XI (XI (XO (XI XH))))))) :: ((Npos
+    (XI (XI (XO (XO (XI (XI XH))))))) :: ((Npos (XI (XO (XO (XO (XO (XI
+    XH))))))) :: ((Npos (XO (XI (XI (XO (XO (XI XH))))))) :: ((Npos (XI (XO
+    (XI (XO (XO (XI XH))))))) :: [])))))), (RTT_IdentifierOrKeyword
+    KK_Unsafe)) :: ((((Npos (XI (XO (XI (XO (XI (XI XH))))))) :: ((Npos (XO
+    (XI (XI (XI (XO (XI XH))))))) :: ((Npos (XO (XO (XI (XO (XI (XI
+    XH))))))) :: ((Npos (XI (XO (XO (XI (XO (XI XH))))))) :: ((Npos (XO (XO
+    (XI (XI (XO (XI XH))))))) :: []))))), (RTT_Keyword KK_Until)) :: ((((Npos
+    (XI (XO (XI (XO (XI (XI XH))))))) :: ((Npos (XI (XI (XO (XO (XI (XI
+    XH))))))) :: ((Npos (XI (XO (XI (XO (XO (XI XH))))))) :: ((Npos (XI (XI
+    (XO (XO (XI (XI XH))))))) :: [])))), (RTT_Keyword KK_Uses)) :: ((((Npos
+    (XO (XI (XI (XO (XI (XI XH))))))) :: ((Npos (XI (XO (XO (XO (XO (XI
+    XH))))))) :: ((Npos (XO (XI (XO (XO (XI (XI XH))))))) :: []))),
+    (RTT_Keyword (KK_Var DK_Other))) :: ((((Npos (XO (XI (XI (XO (XI (XI
+    XH))))))) :: ((Npos (XI (XO (XO (XO (XO (XI XH))))))) :: ((Npos (XO (XI
+    (XO (XO (XI (XI XH))))))) :: ((Npos (XI (XO (XO (XO (XO (XI
+    XH))))))) :: ((Npos (XO (XI (XO (XO (XI (XI XH))))))) :: ((Npos (XI (XI
+    (XI (XO (XO (XI XH))))))) :: ((Npos (XI (XI (XO (XO (XI (XI
+    XH))))))) :: []))))))), (RTT_IdentifierOrKeyword KK_VarArgs)) :: ((((Npos
+    (XO (XI (XI (XO (XI (XI XH))))))) :: ((Npos (XI (XO (XO (XI (XO (XI
+    XH))))))) :: ((Npos (XO (XI (XO (XO (XI (XI XH))))))) :: ((Npos (XO (XO
+    (XI (XO (XI (XI XH))))))) :: ((Npos (XI (XO (XI (XO (XI (XI
+    XH))))))) :: ((Npos (XI (XO (XO (XO (XO (XI XH))))))) :: ((Npos (XO (XO
+    (XI (XI (XO (XI XH))))))) :: []))))))), (RTT_IdentifierOrKeyword
+    KK_Virtual)) :: ((((Npos (XI (XI (XI (XO (XI (XI XH))))))) :: ((Npos (XO
+    (XO (XO (XI (XO (XI XH))))))) :: ((Npos (XI (XO (XO (XI (XO (XI
+    XH))))))) :: ((Npos (XO (XO (XI (XI (XO (XI XH))))))) :: ((Npos (XI (XO
+    (XI (XO (XO (XI XH))))))) :: []))))), (RTT_Keyword KK_While)) :: ((((Npos
+    (XI (XI (XI (XO (XI (XI XH))))))) :: ((Npos (XI (XO (XO (XI (XO (XI
+    XH))))))) :: ((Npos (XO (XI (XI (XI (XO (XI XH))))))) :: ((Npos (XI (XO
+    (XO (XO (XO (XI XH))))))) :: ((Npos (XO (XO (XO (XO (XI (XI
+    XH))))))) :: ((Npos (XI (XO (XO (XI (XO (XI XH))))))) :: [])))))),
+    (RTT_IdentifierOrKeyword KK_WinApi)) :: ((((Npos (XI (XI (XI (XO (XI (XI
+    XH))))))) :: ((Npos (XI (XO (XO (XI (XO (XI XH))))))) :: ((Npos (XO (XO
+    (XI (XO (XI (XI XH))))))) :: ((Npos (XO (XO (XO (XI (XO (XI
+    XH))))))) :: [])))), (RTT_Keyword KK_With)) :: ((((Npos (XI (XI (XI (XO
+    (XI (XI XH))))))) :: ((Npos (XO (XI (XO (XO (XI (XI XH))))))) :: ((Npos
+    (XI (XO (XO (XI (XO (XI XH))))))) :: ((Npos (XO (XO (XI (XO (XI (XI
+    XH))))))) :: ((Npos (XI (XO (XI (XO (XO (XI XH))))))) :: []))))),
+    (RTT_IdentifierOrKeyword KK_Write)) :: ((((Npos (XI (XI (XI (XO (XI (XI
+    XH))))))) :: ((Npos (XO (XI (XO (XO (XI (XI XH))))))) :: ((Npos (XI (XO
+    (XO (XI (XO (XI XH))))))) :: ((Npos (XO (XO (XI (XO (XI (XI
+    XH))))))) :: ((Npos (XI (XO (XI (XO (XO (XI XH))))))) :: ((Npos (XI (XI
+    (XI (XI (XO (XI XH))))))) :: ((Npos (XO (XI (XI (XI (XO (XI
+    XH))))))) :: ((Npos (XO (XO (XI (XI (XO (XI XH))))))) :: ((Npos (XI (XO
+    (XO (XI (XI (XI XH))))))) :: []))))))))), (RTT_IdentifierOrKeyword
+    KK_WriteOnly)) :: ((((Npos (XO (XO (XO (XI (XI (XI XH))))))) :: ((Npos
+    (XI (XI (XI (XI (XO (XI XH))))))) :: ((Npos (XO (XI (XO (XO (XI (XI
+    XH))))))) :: []))), (RTT_Keyword
+    KK_Xor)) :: [])))))))))))))))))))))))))))))))))))))))))))))))))))))))))))))))))))))))))))))))))))))))))))))))))))))))))))))))))))))))))
+
+(** val kEYWORD_ASSO_VALUES_gen : n list **)
+
+let kEYWORD_ASSO_VALUES_gen =
+  (Npos (XO (XO (XI (XO (XI (XI (XI XH)))))))) :: ((Npos (XO (XO (XI (XO (XI
+    (XI (XI XH)))))))) :: ((Npos (XO (XO (XI (XO (XI (XI (XI
+    XH)))))))) :: ((Npos (XO (XO (XI (XO (XI (XI (XI XH)))))))) :: ((Npos (XO
+    (XO (XI (XO (XI (XI (XI XH)))))))) :: ((Npos (XO (XO (XI (XO (XI (XI (XI
+    XH)))))))) :: ((Npos (XO (XO (XI (XO (XI (XI (XI XH)))))))) :: ((Npos (XO
+    (XO (XI (XO (XI (XI (XI XH)))))))) :: ((Npos (XO (XO (XI (XO (XI (XI (XI
+    XH)))))))) :: ((Npos (XO (XO (XI (XO (XI (XI (XI XH)))))))) :: ((Npos (XO
+    (XO (XI (XO (XI (XI (XI XH)))))))) :: ((Npos (XO (XO (XI (XO (XI (XI (XI
+    XH)))))))) :: ((Npos (XO (XO (XI (XO (XI (XI (XI XH)))))))) :: ((Npos (XO
+    (XO (XI (XO (XI (XI (XI XH)))))))) :: ((Npos (XO (XO (XI (XO (XI (XI (XI
+    XH)))))))) :: ((Npos (XO (XO (XI (XO (XI (XI (XI XH)))))))) :: ((Npos (XO
+    (XO (XI (XO (XI (XI (XI XH)))))))) :: ((Npos (XO (XO (XI (XO (XI (XI (XI
+    XH)))))))) :: ((Npos (XO (XO (XI (XO (XI (XI (XI XH)))))))) :: ((Npos (XO
+    (XO (XI (XO (XI (XI (XI XH)))))))) :: ((Npos (XO (XO (XI (XO (XI (XI (XI
+    XH)))))))) :: ((Npos (XO (XO (XI (XO (XI (XI (XI XH)))))))) :: ((Npos (XO
+    (XO (XI (XO (XI (XI (XI XH)))))))) :: ((Npos (XO (XO (XI (XO (XI (XI (XI
+    XH)))))))) :: ((Npos (XO (XO (XI (XO (XI (XI (XI XH)))))))) :: ((Npos (XO
+    (XO (XI (XO (XI (XI (XI XH)))))))) :: ((Npos (XO (XO (XI (XO (XI (XI (XI
+    XH)))))))) :: ((Npos (XO (XO (XI (XO (XI (XI (XI XH)))))))) :: ((Npos (XO
+    (XO (XI (XO (XI (XI (XI XH)))))))) :: ((Npos (XO (XO (XI (XO (XI (XI (XI
+    XH)))))))) :: ((Npos (XO (XO (XI (XO (XI (XI (XI XH)))))))) :: ((Npos (XO
+    (XO (XI (XO (XI (XI (XI XH)))))))) :: ((Npos (XO (XO (XI (XO (XI (XI (XI
+    XH)))))))) :: ((Npos (XO (XO (XI (XO (XI (XI (XI XH)))))))) :: ((Npos (XO
+    (XO (XI (XO (XI (XI (XI XH)))))))) :: ((Npos (XO (XO (XI (XO (XI (XI (XI
+    XH)))))))) :: ((Npos (XO (XO (XI (XO (XI (XI (XI XH)))))))) :: ((Npos (XO
+    (XO (XI (XO (XI (XI (XI XH)))))))) :: ((Npos (XO (XO (XI (XO (XI (XI (XI
+    XH)))))))) :: ((Npos (XO (XO (XI (XO (XI (XI (XI XH)))))))) :: ((Npos (XO
+    (XO (XI (XO (XI (XI (XI XH)))))))) :: ((Npos (XO (XO (XI (XO (XI (XI (XI
+    XH)))))))) :: ((Npos (XO (XO (XI (XO (XI (XI (XI XH)))))))) :: ((Npos (XO
+    (XO (XI (XO (XI (XI (XI XH)))))))) :: ((Npos (XO (XO (XI (XO (XI (XI (XI
+    XH)))))))) :: ((Npos (XO (XO (XI (XO (XI (XI (XI XH)))))))) :: ((Npos (XO
+    (XO (XI (XO (XI (XI (XI XH)))))))) :: ((Npos (XO (XO (XI (XO (XI (XI (XI
+    XH)))))))) :: ((Npos (XO (XO (XI (XO (XI (XI (XI XH)))))))) :: ((Npos (XO
+    (XO (XI (XO (XI (XI (XI XH)))))))) :: ((Npos (XO (XO (XI (XO (XI (XI (XI
+    XH)))))))) :: ((Npos (XO (XO (XI (XO (XI (XI (XI XH)))))))) :: ((Npos (XO
+    (XO (XI (XO (XI (XI (XI XH)))))))) :: ((Npos (XO (XO (XI (XO (XI (XI (XI
+    XH)))))))) :: ((Npos (XO (XO (XI (XO (XI (XI (XI XH)))))))) :: ((Npos (XO
+    (XO (XI (XO (XI (XI (XI XH)))))))) :: ((Npos (XO (XO (XI (XO (XI (XI (XI
+    XH)))))))) :: ((Npos (XO (XO (XI (XO (XI (XI (XI XH)))))))) :: ((Npos (XO
+    (XO (XI (XO (XI (XI (XI XH)))))))) :: ((Npos (XO (XO (XI (XO (XI (XI (XI
+    XH)))))))) :: ((Npos (XO (XO (XI (XO (XI (XI (XI XH)))))))) :: ((Npos (XO
+    (XO (XI (XO (XI (XI (XI XH)))))))) :: ((Npos (XO (XO (XI (XO (XI (XI (XI
+    XH)))))))) :: ((Npos (XO (XO (XI (XO (XI (XI (XI XH)))))))) :: ((Npos (XO
+    (XO (XI (XO (XI (XI (XI XH)))))))) :: ((Npos (XI (XO (XI (XI
+    XH))))) :: ((Npos (XO (XO (XI (XI (XO (XO XH))))))) :: ((Npos (XI (XO (XI
+    (XI (XO XH)))))) :: ((Npos (XO (XO (XO XH)))) :: ((Npos (XO (XI
+    XH))) :: ((Npos (XI (XI (XI (XI XH))))) :: ((Npos (XO (XI (XI (XI (XO (XO
+    (XO XH)))))))) :: ((Npos (XO (XI (XO (XO (XI (XO XH))))))) :: ((Npos (XO
+    (XI (XO (XO XH))))) :: ((Npos (XI (XO (XO XH)))) :: ((Npos (XO (XO (XI
+    (XO (XI (XI (XI XH)))))))) :: ((Npos (XI (XO (XO (XI (XO
+    XH)))))) :: ((Npos (XI (XO (XO (XO (XI XH)))))) :: ((Npos (XO (XI (XI
+    XH)))) :: ((Npos (XO (XO (XO XH)))) :: ((Npos (XO (XO (XO (XO (XO (XO
+    XH))))))) :: ((Npos (XO (XO (XO XH)))) :: ((Npos (XO (XI XH))) :: ((Npos
+    (XO (XI XH))) :: ((Npos (XI (XO XH))) :: ((Npos (XI (XI (XI (XI (XO
+    XH)))))) :: ((Npos (XI (XI (XO (XI (XI (XO XH))))))) :: ((Npos (XI (XI
+    (XI (XO (XI (XI XH))))))) :: ((Npos (XI (XI (XO (XO (XI (XO
+    XH))))))) :: ((Npos (XO (XI (XO (XI (XO (XO XH))))))) :: ((Npos (XO (XO
+    (XI (XO (XI (XI (XI XH)))))))) :: ((Npos (XO (XO (XI (XO (XI (XI (XI
+    XH)))))))) :: ((Npos (XO (XO (XI (XO (XI (XI (XI XH)))))))) :: ((Npos (XO
+    (XO (XI (XO (XI (XI (XI XH)))))))) :: ((Npos (XO (XO (XI (XO (XI (XI (XI
+    XH)))))))) :: ((Npos (XO (XO (XI (XO (XI (XI (XI XH)))))))) :: ((Npos (XO
+    (XO (XI (XO (XI (XI (XI XH)))))))) :: ((Npos (XI (XO (XI (XI
+    XH))))) :: ((Npos (XO (XO (XI (XI (XO (XO XH))))))) :: ((Npos (XI (XO (XI
+    (XI (XO XH)))))) :: ((Npos (XO (XO (XO XH)))) :: ((Npos (XO (XI
+    XH))) :: ((Npos (XI (XI (XI (XI XH))))) :: ((Npos (XO (XI (XI (XI (XO (XO
+    (XO XH)))))))) :: ((Npos (XO (XI (XO (XO (XI (XO XH))))))) :: ((Npos (XO
+    (XI (XO (XO XH))))) :: ((Npos (XI (XO (XO XH)))) :: ((Npos (XO (XO (XI
+    (XO (XI (XI (XI XH)))))))) :: ((Npos (XI (XO (XO (XI (XO
+    XH)))))) :: ((Npos (XI (XO (XO (XO (XI XH)))))) :: ((Npos (XO (XI (XI
+    XH)))) :: ((Npos (XO (XO (XO XH)))) :: ((Npos (XO (XO (XO (XO (XO (XO
+    XH))))))) :: ((Npos (XO (XO (XO XH)))) :: ((Npos (XO (XI XH))) :: ((Npos
+    (XO (XI XH))) :: ((Npos (XI (XO XH))) :: ((Npos (XI (XI (XI (XI (XO
+    XH)))))) :: ((Npos (XI (XI (XO (XI (XI (XO XH))))))) :: ((Npos (XI (XI
+    (XI (XO (XI (XI XH))))))) :: ((Npos (XI (XI (XO (XO (XI (XO
+    XH))))))) :: ((Npos (XO (XI (XO (XI (XO (XO XH))))))) :: ((Npos (XO (XO
+    (XI (XO (XI (XI (XI XH)))))))) :: ((Npos (XO (XO (XI (XO (XI (XI (XI
+    XH)))))))) :: ((Npos (XO (XO (XI (XO (XI (XI (XI XH)))))))) :: ((Npos (XO
+    (XO (XI (XO (XI (XI (XI XH)))))))) :: ((Npos (XO (XO (XI (XO (XI (XI (XI
+    XH)))))))) :: ((Npos (XO (XO (XI (XO (XI (XI (XI XH)))))))) :: ((Npos (XO
+    (XO (XI (XO (XI (XI (XI XH)))))))) :: ((Npos (XO (XO (XI (XO (XI (XI (XI
+    XH)))))))) :: ((Npos (XO (XO (XI (XO (XI (XI (XI XH)))))))) :: ((Npos (XO
+    (XO (XI (XO (XI (XI (XI XH)))))))) :: ((Npos (XO (XO (XI (XO (XI (XI (XI
+    XH)))))))) :: ((Npos (XO (XO (XI (XO (XI (XI (XI XH)))))))) :: ((Npos (XO
+    (XO (XI (XO (XI (XI (XI XH)))))))) :: ((Npos (XO (XO (XI (XO (XI (XI (XI
+    XH)))))))) :: ((Npos (XO (XO (XI (XO (XI (XI (XI XH)))))))) :: ((Npos (XO
+    (XO (XI (XO (XI (XI (XI XH)))))))) :: ((Npos (XO (XO (XI (XO (XI (XI (XI
+    XH)))))))) :: ((Npos (XO (XO (XI (XO (XI (XI (XI XH)))))))) :: ((Npos (XO
+    (XO (XI (XO (XI (XI (XI XH)))))))) :: ((Npos (XO (XO (XI (XO (XI (XI (XI
+    XH)))))))) :: ((Npos (XO (XO (XI (XO (XI (XI (XI XH)))))))) :: ((Npos (XO
+    (XO (XI (XO (XI (XI (XI XH)))))))) :: ((Npos (XO (XO (XI (XO (XI (XI (XI
+    XH)))))))) :: ((Npos (XO (XO (XI (XO (XI (XI (XI XH)))))))) :: ((Npos (XO
+    (XO (XI (XO (XI (XI (XI XH)))))))) :: ((Npos (XO (XO (XI (XO (XI (XI (XI
+    XH)))))))) :: ((Npos (XO (XO (XI (XO (XI (XI (XI XH)))))))) :: ((Npos (XO
+    (XO (XI (XO (XI (XI (XI XH)))))))) :: ((Npos (XO (XO (XI (XO (XI (XI (XI
+    XH)))))))) :: ((Npos (XO (XO (XI (XO (XI (XI (XI XH)))))))) :: ((Npos (XO
+    (XO (XI (XO (XI (XI (XI XH)))))))) :: ((Npos (XO (XO (XI (XO (XI (XI (XI
+    XH)))))))) :: ((Npos (XO (XO (XI (XO (XI (XI (XI XH)))))))) :: ((Npos (XO
+    (XO (XI (XO (XI (XI (XI XH)))))))) :: ((Npos (XO (XO (XI (XO (XI (XI (XI
+    XH)))))))) :: ((Npos (XO (XO (XI (XO (XI (XI (XI XH)))))))) :: ((Npos (XO
+    (XO (XI (XO (XI (XI (XI XH)))))))) :: ((Npos (XO (XO (XI (XO (XI (XI (XI
+    XH)))))))) :: ((Npos (XO (XO (XI (XO (XI (XI (XI XH)))))))) :: ((Npos (XO
+    (XO (XI (XO (XI (XI (XI XH)))))))) :: ((Npos (XO (XO (XI (XO (XI (XI (XI
+    XH)))))))) :: ((Npos (XO (XO (XI (XO (XI (XI (XI XH)))))))) :: ((Npos (XO
+    (XO (XI (XO (XI (XI (XI XH)))))))) :: ((Npos (XO (XO (XI (XO (XI (XI (XI
+    XH)))))))) :: ((Npos (XO (XO (XI (XO (XI (XI (XI XH)))))))) :: ((Npos (XO
+    (XO (XI (XO (XI (XI (XI XH)))))))) :: ((Npos (XO (XO (XI (XO (XI (XI (XI
+    XH)))))))) :: ((Npos (XO (XO (XI (XO (XI (XI (XI XH)))))))) :: ((Npos (XO
+    (XO (XI (XO (XI (XI (XI XH)))))))) :: ((Npos (XO (XO (XI (XO (XI (XI (XI
+    XH)))))))) :: ((Npos (XO (XO (XI (XO (XI (XI (XI XH)))))))) :: ((Npos (XO
+    (XO (XI (XO (XI (XI (XI XH)))))))) :: ((Npos (XO (XO (XI (XO (XI (XI (XI
+    XH)))))))) :: ((Npos (XO (XO (XI (XO (XI (XI (XI XH)))))))) :: ((Npos (XO
+    (XO (XI (XO (XI (XI (XI XH)))))))) :: ((Npos (XO (XO (XI (XO (XI (XI (XI
+    XH)))))))) :: ((Npos (XO (XO (XI (XO (XI (XI (XI XH)))))))) :: ((Npos (XO
+    (XO (XI (XO (XI (XI (XI XH)))))))) :: ((Npos (XO (XO (XI (XO (XI (XI (XI
+    XH)))))))) :: ((Npos (XO (XO (XI (XO (XI (XI (XI XH)))))))) :: ((Npos (XO
+    (XO (XI (XO (XI (XI (XI XH)))))))) :: ((Npos (XO (XO (XI (XO (XI (XI (XI
+    XH)))))))) :: ((Npos (XO (XO (XI (XO (XI (XI (XI XH)))))))) :: ((Npos (XO
+    (XO (XI (XO (XI (XI (XI XH)))))))) :: ((Npos (XO (XO (XI (XO (XI (XI (XI
+    XH)))))))) :: ((Npos (XO (XO (XI (XO (XI (XI (XI XH)))))))) :: ((Npos (XO
+    (XO (XI (XO (XI (XI (XI XH)))))))) :: ((Npos (XO (XO (XI (XO (XI (XI (XI
+    XH)))))))) :: ((Npos (XO (XO (XI (XO (XI (XI (XI XH)))))))) :: ((Npos (XO
+    (XO (XI (XO (XI (XI (XI XH)))))))) :: ((Npos (XO (XO (XI (XO (XI (XI (XI
+    XH)))))))) :: ((Npos (XO (XO (XI (XO (XI (XI (XI XH)))))))) :: ((Npos (XO
+    (XO (XI (XO (XI (XI (XI XH)))))))) :: ((Npos (XO (XO (XI (XO (XI (XI (XI
+    XH)))))))) :: ((Npos (XO (XO (XI (XO (XI (XI (XI XH)))))))) :: ((Npos (XO
+    (XO (XI (XO (XI (XI (XI XH)))))))) :: ((Npos (XO (XO (XI (XO (XI (XI (XI
+    XH)))))))) :: ((Npos (XO (XO (XI (XO (XI (XI (XI XH)))))))) :: ((Npos (XO
+    (XO (XI (XO (XI (XI (XI XH)))))))) :: ((Npos (XO (XO (XI (XO (XI (XI (XI
+    XH)))))))) :: ((Npos (XO (XO (XI (XO (XI (XI (XI XH)))))))) :: ((Npos (XO
+    (XO (XI (XO (XI (XI (XI XH)))))))) :: ((Npos (XO (XO (XI (XO (XI (XI (XI
+    XH)))))))) :: ((Npos (XO (XO (XI (XO (XI (XI (XI XH)))))))) :: ((Npos (XO
+    (XO (XI (XO (XI (XI (XI XH)))))))) :: ((Npos (XO (XO (XI (XO (XI (XI (XI
+    XH)))))))) :: ((Npos (XO (XO (XI (XO (XI (XI (XI XH)))))))) :: ((Npos (XO
+    (XO (XI (XO (XI (XI (XI XH)))))))) :: ((Npos (XO (XO (XI (XO (XI (XI (XI
+    XH)))))))) :: ((Npos (XO (XO (XI (XO (XI (XI (XI XH)))))))) :: ((Npos (XO
+    (XO (XI (XO (XI (XI (XI XH)))))))) :: ((Npos (XO (XO (XI (XO (XI (XI (XI
+    XH)))))))) :: ((Npos (XO (XO (XI (XO (XI (XI (XI XH)))))))) :: ((Npos (XO
+    (XO (XI (XO (XI (XI (XI XH)))))))) :: ((Npos (XO (XO (XI (XO (XI (XI (XI
+    XH)))))))) :: ((Npos (XO (XO (XI (XO (XI (XI (XI XH)))))))) :: ((Npos (XO
+    (XO (XI (XO (XI (XI (XI XH)))))))) :: ((Npos (XO (XO (XI (XO (XI (XI (XI
+    XH)))))))) :: ((Npos (XO (XO (XI (XO (XI (XI (XI XH)))))))) :: ((Npos (XO
+    (XO (XI (XO (XI (XI (XI XH)))))))) :: ((Npos (XO (XO (XI (XO (XI (XI (XI
+    XH)))))))) :: ((Npos (XO (XO (XI (XO (XI (XI (XI XH)))))))) :: ((Npos (XO
+    (XO (XI (XO (XI (XI (XI XH)))))))) :: ((Npos (XO (XO (XI (XO (XI (XI (XI
+    XH)))))))) :: ((Npos (XO (XO (XI (XO (XI (XI (XI XH)))))))) :: ((Npos (XO
+    (XO (XI (XO (XI (XI (XI XH)))))))) :: ((Npos (XO (XO (XI (XO (XI (XI (XI
+    XH)))))))) :: ((Npos (XO (XO (XI (XO (XI (XI (XI XH)))))))) :: ((Npos (XO
+    (XO (XI (XO (XI (XI (XI XH)))))))) :: ((Npos (XO (XO (XI (XO (XI (XI (XI
+    XH)))))))) :: ((Npos (XO (XO (XI (XO (XI (XI (XI XH)))))))) :: ((Npos (XO
+    (XO (XI (XO (XI (XI (XI XH)))))))) :: ((Npos (XO (XO (XI (XO (XI (XI (XI
+    XH)))))))) :: ((Npos (XO (XO (XI (XO (XI (XI (XI XH)))))))) :: ((Npos (XO
+    (XO (XI (XO (XI (XI (XI XH)))))))) :: ((Npos (XO (XO (XI (XO (XI (XI (XI
+    XH)))))))) :: ((Npos (XO (XO (XI (XO (XI (XI (XI XH)))))))) :: ((Npos (XO
+    (XO (XI (XO (XI (XI (XI XH)))))))) :: ((Npos (XO (XO (XI (XO (XI (XI (XI
+    XH)))))))) :: ((Npos (XO (XO (XI (XO (XI (XI (XI XH)))))))) :: ((Npos (XO
+    (XO (XI (XO (XI (XI (XI XH)))))))) :: ((Npos (XO (XO (XI (XO (XI (XI (XI
+    XH)))))))) :: ((Npos (XO (XO (XI (XO (XI (XI (XI XH)))))))) :: ((Npos (XO
+    (XO (XI (XO (XI (XI (XI XH)))))))) :: ((Npos (XO (XO (XI (XO (XI (XI (XI
+    XH)))))))) :: ((Npos (XO (XO (XI (XO (XI (XI (XI XH)))))))) :: ((Npos (XO
+    (XO (XI (XO (XI (XI (XI XH)))))))) :: ((Npos (XO (XO (XI (XO (XI (XI (XI
+    XH)))))))) :: ((Npos (XO (XO (XI (XO (XI (XI (XI XH)))))))) :: ((Npos (XO
+    (XO (XI (XO (XI (XI (XI XH)))))))) :: ((Npos (XO (XO (XI (XO (XI (XI (XI
+    XH)))))))) :: ((Npos (XO (XO (XI (XO (XI (XI (XI XH)))))))) :: ((Npos (XO
+    (XO (XI (XO (XI (XI (XI XH)))))))) :: ((Npos (XO (XO (XI (XO (XI (XI (XI
+    XH)))))))) :: [])))))))))))))))))))))))))))))))))))))))))))))))))))))))))))))))))))))))))))))))))))))))))))))))))))))))))))))))))))))))))))))))))))))))))))))))))))))))))))))))))))))))))))))))))))))))))))))))))))))))))))))))))))))))))))))))))))))))))))))))))))))))))))))))
+
+(** val find_first : (byte -> bool) -> bytes -> nat option **)
+
+let rec find_first p = function
+| [] -> None
+| b :: t -> if p b then Some O else option_map (fun x -> S x) (find_first p t)
+
+(** val find_sub : bytes -> bytes -> nat option **)
+
+let rec find_sub pat l =
+  if is_prefix pat l
+  then Some O
+  else (match l with
+        | [] -> None
+        | _ :: t -> option_map (fun x -> S x) (find_sub pat t))
+
+(** val next_is : byte -> bytes -> bool **)
+
+let next_is c = function
+| [] -> false
+| x :: _ -> N.eqb x c
+
+(** val count_ws : bytes -> nat **)
+
+let rec count_ws = function
+| [] -> O
+| a :: t ->
+  if N.leb a (Npos (XO (XO (XO (XO (XO XH))))))
+  then S (count_ws t)
+  else (match t with
+        | [] -> O
+        | b :: l0 ->
+          (match l0 with
+           | [] -> O
+           | c :: t' ->
+             if (&&)
+                  ((&&)
+                    (N.eqb a (Npos (XI (XI (XO (XO (XO (XI (XI XH)))))))))
+                    (N.eqb b (Npos (XO (XO (XO (XO (XO (XO (XO XH))))))))))
+                  (N.eqb c (Npos (XO (XO (XO (XO (XO (XO (XO XH)))))))))
+             then S (S (S (count_ws t')))
+             else O))
+
+(** val all_ws : bytes -> bool **)
+
+let all_ws l =
+  Nat.eqb (count_ws l) (length l)
+
+(** val trimmed_len : bytes -> nat **)
+
+let rec trimmed_len l = match l with
+| [] -> O
+| _ :: t -> if all_ws l then O else S (trimmed_len t)
+
+(** val is_ident_ascii : byte -> bool **)
+
+let is_ident_ascii b =
+  (||) (is_alnum b) (N.eqb b (Npos (XI (XI (XI (XI (XI (XO XH))))))))
+
+(** val is_dec : byte -> bool **)
+
+let is_dec b =
+  (||) (N.eqb b (Npos (XI (XI (XI (XI (XI (XO XH)))))))) (is_digit b)
+
+(** val is_hex : byte -> bool **)
+
+let is_hex b =
+  (||)
+    ((||)
+      ((||) (N.eqb b (Npos (XI (XI (XI (XI (XI (XO XH)))))))) (is_digit b))
+      ((&&) (N.leb (Npos (XI (XO (XO (XO (XO (XI XH))))))) b)
+        (N.leb b (Npos (XO (XI (XI (XO (XO (XI XH))))))))))
+    ((&&) (N.leb (Npos (XI (XO (XO (XO (XO (XO XH))))))) b)
+      (N.leb b (Npos (XO (XI (XI (XO (XO (XO XH)))))))))
+
+(** val is_bin : byte -> bool **)
+
+let is_bin b =
+  (||)
+    ((||) (N.eqb b (Npos (XI (XI (XI (XI (XI (XO XH))))))))
+      (N.eqb b (Npos (XO (XO (XO (XO (XI XH))))))))
+    (N.eqb b (Npos (XI (XO (XO (XO (XI XH)))))))
+
+(** val count_decimal : bytes -> nat **)
+
+let count_decimal l =
+  count_while is_dec l
+
+(** val count_hex : bytes -> nat **)
+
+let count_hex l =
+  count_while is_hex l
+
+(** val count_binary : bytes -> nat **)
+
+let count_binary l =
+  count_while is_bin l
+
+(** val count_full_decimal : bytes -> nat **)
+
+let count_full_decimal l =
+  if next_is (Npos (XI (XI (XI (XI (XI (XO XH))))))) l
+  then O
+  else count_decimal l
+
+(** val kEYWORDS_table : (bytes * rawTokenType) list **)
+
+let kEYWORDS_table =
+  kEYWORDS_gen
+
+(** val eq_ignore_case : bytes -> bytes -> bool **)
+
+let eq_ignore_case w kw =
+  bytes_eqb (lower w) kw
+
+(** val keyword_lookup :
+    (bytes * rawTokenType) list -> bytes -> rawTokenType **)
+
+let rec keyword_lookup tbl w =
+  match tbl with
+  | [] -> RTT_Identifier
+  | p :: rest ->
+    let (k, ty) = p in
+    if eq_ignore_case w k then ty else keyword_lookup rest w
+
+(** val get_word_token_type : bytes -> rawTokenType **)
+
+let get_word_token_type w =
+  keyword_lookup kEYWORDS_table w
+
+(** val kEYWORD_ASSO_VALUES : n list **)
+
+let kEYWORD_ASSO_VALUES =
+  kEYWORD_ASSO_VALUES_gen
+
+(** val asso : byte -> n **)
+
+let asso b =
+  nth (N.to_nat b) kEYWORD_ASSO_VALUES (Npos (XO (XO (XI (XO (XI (XI (XI
+    XH))))))))
+
+(** val hash_keyword : bytes -> n **)
+
+let hash_keyword w =
+  let len = length w in
+  N.add
+    (N.add
+      (N.add (N.of_nat len)
+        (if Nat.leb (S (S (S O))) len then asso (nth (S (S O)) w N0) else N0))
+      (if Nat.leb (S (S O)) len then asso (nth (S O) w N0) else N0))
+    (if Nat.leb (S O) len
+     then N.add (asso (nth O w N0)) (asso (last w N0))
+     else N0)
+
+(** val set_nth : nat -> 'a1 -> 'a1 list -> 'a1 list **)
+
+let rec set_nth i x = function
+| [] -> []
+| a :: t -> (match i with
+             | O -> x :: t
+             | S j -> a :: (set_nth j x t))
+
+(** val make_keyword_lookup_table :
+    (bytes * rawTokenType) list -> (bytes * rawTokenType) option list ->
+    (bytes * rawTokenType) option list option **)
+
+let rec make_keyword_lookup_table kws out =
+  match kws with
+  | [] -> Some out
+  | kw :: rest ->
+    let h = N.to_nat (hash_keyword (fst kw)) in
+    (match nth_error out h with
+     | Some o ->
+       (match o with
+        | Some _ -> None
+        | None -> make_keyword_lookup_table rest (set_nth h (Some kw) out))
+     | None -> None)
+
+(** val kEYWORD_LOOKUP_TABLE : (bytes * rawTokenType) option list option **)
+
+let kEYWORD_LOOKUP_TABLE =
+  make_keyword_lookup_table kEYWORDS_table
+    (repeat None (N.to_nat (nth O kEYWORD_ASSO_VALUES N0)))
+
+(** val mAX_WORD_LENGTH : nat **)
+
+let mAX_WORD_LENGTH =
+  fold_right (fun kw acc -> Nat.max (length (fst kw)) acc) O kEYWORDS_table
+
+(** val get_word_token_type_hash : bytes -> rawTokenType option **)
+
+let get_word_token_type_hash w =
+  match kEYWORD_LOOKUP_TABLE with
+  | Some tbl ->
+    Some
+      (if Nat.leb (length w) mAX_WORD_LENGTH
+       then (match nth_error tbl (N.to_nat (hash_keyword w)) with
+             | Some o ->
+               (match o with
+                | Some p ->
+                  let (candidate, keyword) = p in
+                  if eq_ignore_case w candidate
+                  then keyword
+                  else RTT_Identifier
+                | None -> RTT_Identifier)
+             | None -> RTT_Identifier)
+       else RTT_Identifier)
+  | None -> None
+
+(** val is_u3000_at : bytes -> bool **)
+
+let is_u3000_at l =
+  is_prefix ((Npos (XI (XI (XO (XO (XO (XI (XI XH)))))))) :: ((Npos (XO (XO
+    (XO (XO (XO (XO (XO XH)))))))) :: ((Npos (XO (XO (XO (XO (XO (XO (XO
+    XH)))))))) :: []))) l
+
+(** val ident_end_generic : bytes -> nat **)
+
+let rec ident_end_generic l = match l with
+| [] -> O
+| b :: t ->
+  if is_ident_ascii b
+  then S (ident_end_generic t)
+  else if (&&) (N.leb (Npos (XO (XO (XO (XO (XO (XO (XO XH)))))))) b)
+            (negb (is_u3000_at l))
+       then S (ident_end_generic t)
+       else O
+
+(** val to_i8 : byte -> z **)
+
+let to_i8 b =
+  if N.ltb b (Npos (XO (XO (XO (XO (XO (XO (XO XH))))))))
+  then Z.of_N b
+  else Z.sub (Z.of_N b) (Zpos (XO (XO (XO (XO (XO (XO (XO (XO XH)))))))))
+
+(** val range_mask : byte -> byte -> byte -> bool **)
+
+let range_mask x lo hi =
+  (&&) (Z.ltb (to_i8 x) (Z.add (to_i8 hi) (Zpos XH)))
+    (Z.ltb (Z.sub (to_i8 lo) (Zpos XH)) (to_i8 x))
+
+(** val ident_mask_bit : byte -> bool **)
+
+let ident_mask_bit x =
+  (||) (N.eqb x (Npos (XI (XI (XI (XI (XI (XO XH))))))))
+    ((||)
+      (range_mask x (Npos (XI (XO (XO (XO (XO (XO XH))))))) (Npos (XO (XI (XO
+        (XI (XI (XO XH))))))))
+      ((||)
+        (range_mask x (Npos (XI (XO (XO (XO (XO (XI XH))))))) (Npos (XO (XI
+          (XO (XI (XI (XI XH))))))))
+        (range_mask x (Npos (XO (XO (XO (XO (XI XH)))))) (Npos (XI (XO (XO
+          (XI (XI XH)))))))))
+
+(** val any_non_ascii : bytes -> bool **)
+
+let any_non_ascii chunk =
+  existsb (fun b -> N.leb (Npos (XO (XO (XO (XO (XO (XO (XO XH)))))))) b)
+    chunk
+
+(** val trailing_ones : bool list -> nat **)
+
+let trailing_ones mask0 =
+  count_while (fun x -> x) mask0
+
+(** val avx2_loop : nat -> bytes -> nat **)
+
+let rec avx2_loop fuel l =
+  match fuel with
+  | O -> ident_end_generic l
+  | S f ->
+    if Nat.leb (S (S (S (S (S (S (S (S (S (S (S (S (S (S (S (S (S (S (S (S (S
+         (S (S (S (S (S (S (S (S (S (S (S O))))))))))))))))))))))))))))))))
+         (length l)
+    then let chunk =
+           firstn (S (S (S (S (S (S (S (S (S (S (S (S (S (S (S (S (S (S (S (S
+             (S (S (S (S (S (S (S (S (S (S (S (S
+             O)))))))))))))))))))))))))))))))) l
+         in
+         if any_non_ascii chunk
+         then ident_end_generic l
+         else let mask0 = map ident_mask_bit chunk in
+              if negb (forallb (fun x -> x) mask0)
+              then trailing_ones mask0
+              else add (S (S (S (S (S (S (S (S (S (S (S (S (S (S (S (S (S (S
+                     (S (S (S (S (S (S (S (S (S (S (S (S (S (S
+                     O))))))))))))))))))))))))))))))))
+                     (avx2_loop f
+                       (skipn (S (S (S (S (S (S (S (S (S (S (S (S (S (S (S (S
+                         (S (S (S (S (S (S (S (S (S (S (S (S (S (S (S (S
+                         O)))))))))))))))))))))))))))))))) l))
+    else ident_end_generic l
+
+(** val ident_end_avx2 : bytes -> nat **)
+
+let ident_end_avx2 l =
+  avx2_loop (length l) l
+
+(** val find_identifier_end : bytes -> nat **)
+
+let find_identifier_end =
+  ident_end_generic
+
+(** val unicode_identifier : bytes -> nat **)
+
+let unicode_identifier t =
+  let c = count_while is_cont t in add c (find_identifier_end (skipn c t))
+
+(** val is_asm_ident : byte -> bool **)
+
+let is_asm_ident b =
+  (||) (is_ident_ascii b) (N.eqb b (Npos (XO (XO (XO (XO (XO (XO XH))))))))
+
+(** val asm_label : bytes -> nat **)
+
+let asm_label t =
+  count_while is_asm_ident t
+
+(** val dec_number_literal : bytes -> nat **)
+
+let dec_number_literal l =
+  let n1 = count_decimal l in
+  let r1 = skipn n1 l in
+  let n2 =
+    if next_is (Npos (XO (XI (XI (XI (XO XH)))))) r1
+    then let f = count_full_decimal (tl r1) in if Nat.eqb f O then O else S f
+    else O
+  in
+  let r2 = skipn n2 r1 in
+  let n3 =
+    if (||) (next_is (Npos (XI (XO (XI (XO (XO (XI XH))))))) r2)
+         (next_is (Npos (XI (XO (XI (XO (XO (XO XH))))))) r2)
+    then let r3 = tl r2 in
+         if (||) (next_is (Npos (XI (XI (XO (XI (XO XH)))))) r3)
+              (next_is (Npos (XI (XO (XI (XI (XO XH)))))) r3)
+         then S (S (count_full_decimal (tl r3)))
+         else S (count_full_decimal r3)
+    else O
+  in
+  add (add n1 n2) n3
+
+(** val asm_number_literal : byte -> bytes -> nat * rawTokenType **)
+
+let asm_number_literal first t =
+  let n0 = count_hex t in
+  let r = skipn n0 t in
+  if (||) (next_is (Npos (XI (XI (XI (XI (XO (XO XH))))))) r)
+       (next_is (Npos (XI (XI (XI (XI (XO (XI XH))))))) r)
+  then ((S n0), (RTT_NumberLiteral NK_Octal))
+  else if (||) (next_is (Npos (XO (XO (XO (XI (XO (XO XH))))))) r)
+            (next_is (Npos (XO (XO (XO (XI (XO (XI XH))))))) r)
+       then ((S n0), (RTT_NumberLiteral NK_Hex))
+       else let prev = nth n0 (first :: t) N0 in
+            if (||) (N.eqb prev (Npos (XO (XI (XO (XO (XO (XO XH))))))))
+                 (N.eqb prev (Npos (XO (XI (XO (XO (XO (XI XH))))))))
+            then (n0, (RTT_NumberLiteral NK_Binary))
+            else (n0, (RTT_NumberLiteral NK_Decimal))
+
+type tl_state =
+| TL_E
+| TL_H
+| TL_D
+| TL_X0
+| TL_X
+| TL_B0
+| TL_B
+| TL_S
+
+type tl_act =
+| TGo of tl_state
+| TStop of textLiteralKind
+
+(** val tl_step_E : byte -> tl_act **)
+
+let tl_step_E b =
+  if N.eqb b (Npos (XI (XI (XO (XO (XO XH))))))
+  then TGo TL_H
+  else if N.eqb b (Npos (XI (XI (XI (XO (XO XH))))))
+       then TGo TL_S
+       else TStop TK_SingleLine
+
+(** val tl_step : tl_state -> byte -> tl_act **)
+
+let tl_step s b =
+  match s with
+  | TL_E -> tl_step_E b
+  | TL_H ->
+    if is_dec b
+    then TGo TL_D
+    else if N.eqb b (Npos (XO (XO (XI (XO (XO XH))))))
+         then TGo TL_X0
+         else if N.eqb b (Npos (XI (XO (XI (XO (XO XH))))))
+              then TGo TL_B0
+              else TStop TK_Unterminated
+  | TL_D -> if is_dec b then TGo TL_D else tl_step_E b
+  | TL_X0 -> if is_hex b then TGo TL_X else TStop TK_Unterminated
+  | TL_X -> if is_hex b then TGo TL_X else tl_step_E b
+  | TL_B0 -> if is_bin b then TGo TL_B else TStop TK_Unterminated
+  | TL_B -> if is_bin b then TGo TL_B else tl_step_E b
+  | TL_S ->
+    if N.eqb b (Npos (XI (XI (XI (XO (XO XH))))))
+    then TGo TL_E
+    else if (||) (N.eqb b (Npos (XO (XI (XO XH)))))
+              (N.eqb b (Npos (XI (XO (XI XH)))))
+         then TStop TK_Unterminated
+         else TGo TL_S
+
+(** val tl_end : tl_state -> textLiteralKind **)
+
+let tl_end = function
+| TL_E -> TK_SingleLine
+| TL_D -> TK_SingleLine
+| TL_X -> TK_SingleLine
+| TL_B -> TK_SingleLine
+| _ -> TK_Unterminated
+
+(** val tl_run : tl_state -> bytes -> nat * textLiteralKind **)
+
+let rec tl_run s = function
+| [] -> (O, (tl_end s))
+| b :: t ->
+  (match tl_step s b with
+   | TGo s' -> let r = tl_run s' t in ((S (fst r)), (snd r))
+   | TStop k -> (O, k))
+
+(** val text_literal : byte -> bytes -> nat * rawTokenType **)
+
+let text_literal b t =
+  let q =
+    if N.eqb b (Npos (XI (XI (XI (XO (XO XH))))))
+    then S
+           (count_while (fun c -> N.eqb c (Npos (XI (XI (XI (XO (XO XH)))))))
+             t)
+    else O
+  in
+  let body = skipn (sub q (S O)) t in
+  if (&&) ((&&) (Nat.leb (S (S (S O))) q) (Nat.odd q))
+       ((||) (next_is (Npos (XI (XO (XI XH)))) body)
+         (next_is (Npos (XO (XI (XO XH)))) body))
+  then (match find_sub (repeat (Npos (XI (XI (XI (XO (XO XH)))))) q) body with
+        | Some pos ->
+          ((add (add (sub q (S O)) pos) q), (RTT_TextLiteral TK_MultiLine))
+        | None -> ((length t), (RTT_TextLiteral TK_Unterminated)))
+  else let r =
+         tl_run
+           (if N.eqb b (Npos (XI (XI (XI (XO (XO XH)))))) then TL_S else TL_H)
+           t
+       in
+       ((fst r), (RTT_TextLiteral (snd r)))
+
+(** val asm_text_literal : bytes -> nat * rawTokenType **)
+
+let rec asm_text_literal = function
+| [] -> (O, (RTT_TextLiteral TK_Unterminated))
+| b :: t1 ->
+  if N.eqb b (Npos (XO (XO (XI (XI (XI (XO XH)))))))
+  then (match t1 with
+        | [] -> ((S O), (RTT_TextLiteral TK_Unterminated))
+        | _ :: t2 -> let r = asm_text_literal t2 in ((S (S (fst r))), (snd r)))
+  else if N.eqb b (Npos (XO (XI (XO (XO (XO XH))))))
+       then ((S O), (RTT_TextLiteral TK_Asm))
+       else if (||) (N.eqb b (Npos (XO (XI (XO XH)))))
+                 (N.eqb b (Npos (XI (XO (XI XH)))))
+            then (O, (RTT_TextLiteral TK_Unterminated))
+            else let r = asm_text_literal t1 in ((S (fst r)), (snd r))
+
+type blockCommentKind =
+| BCK_ParenStar
+| BCK_Brace
+
+(** val is_paren_star : blockCommentKind -> bool **)
+
+let is_paren_star = function
+| BCK_ParenStar -> true
+| BCK_Brace -> false
+
+(** val find_block_comment_end : blockCommentKind -> bytes -> nat option **)
+
+let find_block_comment_end k l =
+  match k with
+  | BCK_ParenStar ->
+    option_map (fun o -> add o (S (S O)))
+      (find_sub ((Npos (XO (XI (XO (XI (XO XH)))))) :: ((Npos (XI (XO (XO (XI
+        (XO XH)))))) :: [])) l)
+  | BCK_Brace ->
+    option_map (fun x -> S x)
+      (find_first (fun b -> N.eqb b (Npos (XI (XO (XI (XI (XI (XI XH))))))))
+        l)
+
+(** val block_comment_kind : bool -> bool -> commentKind **)
+
+let block_comment_kind nl_before = function
+| true -> CoK_MultilineBlock
+| false -> if nl_before then CoK_IndividualBlock else CoK_InlineBlock
+
+(** val block_comment :
+    blockCommentKind -> bool -> bytes -> nat * rawTokenType **)
+
+let block_comment k nlb l =
+  match find_block_comment_end k l with
+  | Some e ->
+    (e, (RTT_Comment
+      (block_comment_kind nlb
+        (contains_byte (Npos (XO (XI (XO XH)))) (firstn e l)))))
+  | None -> ((trimmed_len l), (RTT_Comment CoK_MultilineBlock))
+
+(** val is_eol : byte -> bool **)
+
+let is_eol b =
+  (||) (N.eqb b (Npos (XO (XI (XO XH))))) (N.eqb b (Npos (XI (XO (XI XH)))))
+
+(** val line_comment_len : bytes -> nat **)
+
+let line_comment_len l =
+  count_while (fun b -> negb (is_eol b)) l
+
+(** val line_comment : bool -> bytes -> nat * rawTokenType **)
+
+let line_comment nlb l =
+  ((line_comment_len l), (RTT_Comment
+    (if nlb then CoK_IndividualLine else CoK_InlineLine)))
+
+(** val conditional_directive_kind :
+    bytes -> conditionalDirectiveKind option **)
+
+let conditional_directive_kind name =
+  if eq_ignore_case name ((Npos (XI (XO (XO (XI (XO (XI XH))))))) :: ((Npos
+       (XO (XI (XI (XO (XO (XI XH))))))) :: []))
+  then Some CDK_If
+  else if eq_ignore_case name ((Npos (XI (XO (XO (XI (XO (XI
+            XH))))))) :: ((Npos (XO (XI (XI (XO (XO (XI XH))))))) :: ((Npos
+            (XO (XO (XI (XO (XO (XI XH))))))) :: ((Npos (XI (XO (XI (XO (XO
+            (XI XH))))))) :: ((Npos (XO (XI (XI (XO (XO (XI
+            XH))))))) :: [])))))
+       then Some CDK_Ifdef
+       else if eq_ignore_case name ((Npos (XI (XO (XO (XI (XO (XI
+                 XH))))))) :: ((Npos (XO (XI (XI (XO (XO (XI
+                 XH))))))) :: ((Npos (XO (XI (XI (XI (XO (XI
+                 XH))))))) :: ((Npos (XO (XO (XI (XO (XO (XI
+                 XH))))))) :: ((Npos (XI (XO (XI (XO (XO (XI
+                 XH))))))) :: ((Npos (XO (XI (XI (XO (XO (XI
+                 XH))))))) :: []))))))
+            then Some CDK_Ifndef
+            else if eq_ignore_case name ((Npos (XI (XO (XO (XI (XO (XI
+                      XH))))))) :: ((Npos (XO (XI (XI (XO (XO (XI
+                      XH))))))) :: ((Npos (XI (XI (XI (XI (XO (XI
+                      XH))))))) :: ((Npos (XO (XO (XO (XO (XI (XI
+                      XH))))))) :: ((Npos (XO (XO (XI (XO (XI (XI
+                      XH))))))) :: [])))))
+                 then Some CDK_Ifopt
+                 else if eq_ignore_case name ((Npos (XI (XO (XI (XO (XO (XI
+                           XH))))))) :: ((Npos (XO (XO (XI (XI (XO (XI
+                           XH))))))) :: ((Npos (XI (XI (XO (XO (XI (XI
+                           XH))))))) :: ((Npos (XI (XO (XI (XO (XO (XI
+                           XH))))))) :: ((Npos (XI (XO (XO (XI (XO (XI
+                           XH))))))) :: ((Npos (XO (XI (XI (XO (XO (XI
+                           XH))))))) :: []))))))
+                      then Some CDK_Elseif
+                      else if eq_ignore_case name ((Npos (XI (XO (XI (XO (XO
+                                (XI XH))))))) :: ((Npos (XO (XO (XI (XI (XO
+                                (XI XH))))))) :: ((Npos (XI (XI (XO (XO (XI
+                                (XI XH))))))) :: ((Npos (XI (XO (XI (XO (XO
+                                (XI XH))))))) :: []))))
+                           then Some CDK_Else
+                           else if eq_ignore_case name ((Npos (XI (XO (XO (XI
+                                     (XO (XI XH))))))) :: ((Npos (XO (XI (XI
+                                     (XO (XO (XI XH))))))) :: ((Npos (XI (XO
+                                     (XI (XO (XO (XI XH))))))) :: ((Npos (XO
+                                     (XI (XI (XI (XO (XI XH))))))) :: ((Npos
+                                     (XO (XO (XI (XO (XO (XI
+                                     XH))))))) :: [])))))
+                                then Some CDK_Ifend
+                                else if eq_ignore_case name ((Npos (XI (XO
+                                          (XI (XO (XO (XI XH))))))) :: ((Npos
+                                          (XO (XI (XI (XI (XO (XI
+                                          XH))))))) :: ((Npos (XO (XO (XI (XO
+                                          (XO (XI XH))))))) :: ((Npos (XI (XO
+                                          (XO (XI (XO (XI XH))))))) :: ((Npos
+                                          (XO (XI (XI (XO (XO (XI
+                                          XH))))))) :: [])))))
+                                     then Some CDK_Endif
+                                     else None
+
+(** val directive_token_type :
+    conditionalDirectiveKind option -> rawTokenType **)
+
+let directive_token_type = function
+| Some k -> RTT_ConditionalDirective k
+| None -> RTT_CompilerDirective
+
+(** val cdk_has_expr : conditionalDirectiveKind option -> bool **)
+
+let cdk_has_expr = function
+| Some c -> (match c with
+             | CDK_If -> true
+             | CDK_Elseif -> true
+             | _ -> false)
+| None -> false
+
+type dres =
+| DEnd of nat
+| DUnterminated
+| DFuel
+
+(** val dshift : nat -> dres -> dres **)
+
+let dshift k r = match r with
+| DEnd n0 -> DEnd (add k n0)
+| _ -> r
+
+(** val dres_of_option : nat option -> dres **)
+
+let dres_of_option = function
+| Some n0 -> DEnd n0
+| None -> DUnterminated
+
+(** val parse_directive_end :
+    (blockCommentKind -> bytes -> dres) -> blockCommentKind -> bytes -> dres **)
+
+let parse_directive_end expr_end k l =
+  let n0 = count_while is_ident_ascii l in
+  let r = skipn n0 l in
+  if cdk_has_expr (conditional_directive_kind (firstn n0 l))
+  then dshift n0 (expr_end k r)
+  else dshift n0 (dres_of_option (find_block_comment_end k r))
+
+(** val find_directive_expr_end : nat -> blockCommentKind -> bytes -> dres **)
+
+let rec find_directive_expr_end fuel kind l =
+  match fuel with
+  | O -> DFuel
+  | S f ->
+    let continue = fun m ->
+      dshift m (find_directive_expr_end f kind (skipn m l))
+    in
+    let and_then = fun pre r ->
+      match r with
+      | DEnd m -> continue (add pre m)
+      | _ -> r
+    in
+    (match l with
+     | [] -> DUnterminated
+     | b :: t ->
+       if (&&) (is_paren_star kind)
+            (is_prefix ((Npos (XO (XI (XO (XI (XO XH)))))) :: ((Npos (XI (XO
+              (XO (XI (XO XH)))))) :: [])) l)
+       then DEnd (S (S O))
+       else if (&&) (negb (is_paren_star kind))
+                 (N.eqb b (Npos (XI (XO (XI (XI (XI (XI XH))))))))
+            then DEnd (S O)
+            else if is_prefix ((Npos (XO (XO (XO (XI (XO XH)))))) :: ((Npos
+                      (XO (XI (XO (XI (XO XH)))))) :: ((Npos (XO (XO (XI (XO
+                      (XO XH)))))) :: []))) l
+                 then and_then (S (S (S O)))
+                        (parse_directive_end (find_directive_expr_end f)
+                          BCK_ParenStar (skipn (S (S (S O))) l))
+                 else if is_prefix ((Npos (XI (XI (XO (XI (XI (XI
+                           XH))))))) :: ((Npos (XO (XO (XI (XO (XO
+                           XH)))))) :: [])) l
+                      then and_then (S (S O))
+                             (parse_directive_end (find_directive_expr_end f)
+                               BCK_Brace (skipn (S (S O)) l))
+                      else if is_prefix ((Npos (XO (XO (XO (XI (XO
+                                XH)))))) :: ((Npos (XO (XI (XO (XI (XO
+                                XH)))))) :: [])) l
+                           then continue
+                                  (add (S (S O))
+                                    (fst
+                                      (block_comment BCK_ParenStar false
+                                        (skipn (S (S O)) l))))
+                           else if N.eqb b (Npos (XI (XI (XO (XI (XI (XI
+                                     XH)))))))
+                                then continue
+                                       (add (S O)
+                                         (fst
+                                           (block_comment BCK_Brace false t)))
+                                else if N.eqb b (Npos (XI (XI (XI (XO (XO
+                                          XH))))))
+                                     then continue (S
+                                            (fst
+                                              (text_literal (Npos (XI (XI (XI
+                                                (XO (XO XH)))))) t)))
+                                     else if is_prefix ((Npos (XI (XI (XI (XI
+                                               (XO XH)))))) :: ((Npos (XI (XI
+                                               (XI (XI (XO XH)))))) :: [])) l
+                                          then continue
+                                                 (add (S (S O))
+                                                   (line_comment_len
+                                                     (skipn (S (S O)) l)))
+                                          else continue (S O))
+
+type tres =
+| TOk of nat * rawTokenType
+| TFuel
+
+(** val tok : (nat * rawTokenType) -> tres **)
+
+let tok r =
+  TOk ((fst r), (snd r))
+
+(** val tshift : nat -> tres -> tres **)
+
+let tshift k = function
+| TOk (n0, ty) -> TOk ((add k n0), ty)
+| TFuel -> TFuel
+
+(** val compiler_directive : blockCommentKind -> bytes -> tres **)
+
+let compiler_directive k l =
+  let n0 = count_while is_ident_ascii l in
+  let ty = directive_token_type (conditional_directive_kind (firstn n0 l)) in
+  (match parse_directive_end (find_directive_expr_end (S (length l))) k l with
+   | DEnd e -> TOk (e, ty)
+   | DUnterminated -> TOk ((trimmed_len l), ty)
+   | DFuel -> TFuel)
+
+(** val compiler_directive_or_comment :
+    blockCommentKind -> bool -> bytes -> tres **)
+
+let compiler_directive_or_comment k nlb l =
+  if next_is (Npos (XO (XO (XI (XO (XO XH)))))) l
+  then tshift (S O) (compiler_directive k (tl l))
+  else tok (block_comment k nlb l)
+
+(** val ampersand : bytes -> nat * rawTokenType **)
+
+let ampersand t =
+  let k = count_while (fun b -> N.eqb b (Npos (XO (XI (XI (XO (XO XH))))))) t
+  in
+  (match skipn k t with
+   | [] -> (k, RTT_Unknown)
+   | c :: r ->
+     if N.eqb c (Npos (XO (XO (XI (XO (XO XH))))))
+     then ((add (add k (S O)) (count_hex r)), (RTT_NumberLiteral NK_Hex))
+     else if N.eqb c (Npos (XI (XO (XI (XO (XO XH))))))
+          then ((add (add k (S O)) (count_binary r)), (RTT_NumberLiteral
+                 NK_Binary))
+          else if is_digit c
+               then ((add (add k (S O)) (dec_number_literal r)),
+                      (RTT_NumberLiteral NK_Decimal))
+               else if (||) (is_alpha c)
+                         (N.eqb c (Npos (XI (XI (XI (XI (XI (XO XH))))))))
+                    then ((add (add k (S O)) (find_identifier_end r)),
+                           RTT_Identifier)
+                    else if N.leb (Npos (XO (XO (XO (XO (XO (XO (XO
+                              XH)))))))) c
+                         then ((add (add k (S O)) (unicode_identifier r)),
+                                RTT_Identifier)
+                         else (k, RTT_Unknown))
+
+type lstate = { ls_first : bool; ls_asm : bool; ls_prev : rawTokenType option }
+
+(** val prev_is_dot : lstate -> bool **)
+
+let prev_is_dot st =
+  match st.ls_prev with
+  | Some r ->
+    (match r with
+     | RTT_Op k -> (match k with
+                    | OK_Dot -> true
+                    | _ -> false)
+     | _ -> false)
+  | None -> false
+
+(** val is_kw_asm : rawTokenType -> bool **)
+
+let is_kw_asm = function
+| RTT_Keyword k -> (match k with
+                    | KK_Asm -> true
+                    | _ -> false)
+| _ -> false
+
+(** val identifier_or_keyword :
+    lstate -> byte -> bytes -> nat * rawTokenType **)
+
+let identifier_or_keyword st b t =
+  let n0 = find_identifier_end t in
+  (n0,
+  (if prev_is_dot st
+   then RTT_Identifier
+   else get_word_token_type (b :: (firstn n0 t))))
+
+(** val asm_identifier : byte -> bytes -> (nat * rawTokenType) * bool **)
+
+let asm_identifier b t =
+  let n0 = find_identifier_end t in
+  let w = b :: (firstn n0 t) in
+  if eq_ignore_case w ((Npos (XI (XO (XI (XO (XO (XI XH))))))) :: ((Npos (XO
+       (XI (XI (XI (XO (XI XH))))))) :: ((Npos (XO (XO (XI (XO (XO (XI
+       XH))))))) :: [])))
+  then ((n0, (RTT_Keyword KK_End)), false)
+  else if eq_ignore_case w ((Npos (XI (XO (XO (XO (XO (XI XH))))))) :: ((Npos
+            (XI (XI (XO (XO (XI (XI XH))))))) :: ((Npos (XI (XO (XI (XI (XO
+            (XI XH))))))) :: [])))
+       then ((n0, (RTT_Keyword KK_Asm)), true)
+       else ((n0, RTT_Identifier), true)
+
+(** val op : nat -> operatorKind -> tres **)
+
+let op n0 k =
+  TOk (n0, (RTT_Op k))
+
+(** val lex_common : lstate -> bool -> byte -> bytes -> tres **)
+
+let lex_common st nlb b t =
+  if N.eqb b (Npos (XO (XO (XO (XI (XO XH))))))
+  then if next_is (Npos (XO (XI (XO (XI (XO XH)))))) t
+       then tshift (S O)
+              (compiler_directive_or_comment BCK_ParenStar nlb (tl t))
+       else if next_is (Npos (XO (XI (XI (XI (XO XH)))))) t
+            then op (S O) OK_LBrack
+            else op O OK_LParen
+  else if N.eqb b (Npos (XI (XI (XO (XI (XI (XI XH)))))))
+       then compiler_directive_or_comment BCK_Brace nlb t
+       else if N.eqb b (Npos (XI (XI (XI (XI (XO XH))))))
+            then if next_is (Npos (XI (XI (XI (XI (XO XH)))))) t
+                 then tshift (S O) (tok (line_comment nlb (tl t)))
+                 else op O OK_Slash
+            else if N.eqb b (Npos (XO (XI (XO (XI (XI XH))))))
+                 then if next_is (Npos (XI (XO (XI (XI (XI XH)))))) t
+                      then op (S O) OK_Assign
+                      else op O OK_Colon
+                 else if N.eqb b (Npos (XO (XO (XI (XI (XI XH))))))
+                      then if next_is (Npos (XI (XO (XI (XI (XI XH)))))) t
+                           then op (S O) OK_LessEqual
+                           else if next_is (Npos (XO (XI (XI (XI (XI XH))))))
+                                     t
+                                then op (S O) OK_NotEqual
+                                else op O (OK_LessThan ChK_Comp)
+                      else if N.eqb b (Npos (XO (XI (XI (XI (XI XH))))))
+                           then if next_is (Npos (XI (XO (XI (XI (XI XH))))))
+                                     t
+                                then op (S O) OK_GreaterEqual
+                                else op O (OK_GreaterThan ChK_Comp)
+                           else if N.eqb b (Npos (XO (XI (XI (XI (XO XH))))))
+                                then if next_is (Npos (XO (XI (XI (XI (XO
+                                          XH)))))) t
+                                     then op (S O) OK_DotDot
+                                     else if next_is (Npos (XI (XO (XO (XI
+                                               (XO XH)))))) t
+                                          then op (S O) OK_RBrack
+                                          else op O OK_Dot
+                                else if N.eqb b (Npos (XI (XI (XO (XI (XO
+                                          XH))))))
+                                     then op O OK_Plus
+                                     else if N.eqb b (Npos (XI (XO (XI (XI
+                                               (XO XH))))))
+                                          then op O OK_Minus
+                                          else if N.eqb b (Npos (XO (XI (XO
+                                                    (XI (XO XH))))))
+                                               then op O OK_Star
+                                               else if N.eqb b (Npos (XO (XO
+                                                         (XI (XI (XO XH))))))
+                                                    then op O OK_Comma
+                                                    else if N.eqb b (Npos (XI
+                                                              (XI (XO (XI (XI
+                                                              XH))))))
+                                                         then op O
+                                                                OK_Semicolon
+                                                         else if N.eqb b
+                                                                   (Npos (XI
+                                                                   (XO (XI
+                                                                   (XI (XI
+                                                                   XH))))))
+                                                              then op O
+                                                                    (OK_Equal
+                                                                    EK_Comp)
+                                                              else if 
+                                                                    N.eqb b
+                                                                    (Npos (XO
+                                                                    (XI (XI
+                                                                    (XI (XI
+                                                                    (XO
+                                                                    XH)))))))
+                                                                   then 
+                                                                    op O
+                                                                    (OK_Caret
+                                                                    CaK_Deref)
+                                                                   else 
+                                                                    if 
+                                                                    N.eqb b
+                                                                    (Npos (XO
+                                                                    (XO (XO
+                                                                    (XO (XO
+                                                                    (XO
+                                                                    XH)))))))
+                                                                    then 
+                                                                    op O
+                                                                    OK_AddressOf
+                                                                    else 
+                                                                    if 
+                                                                    N.eqb b
+                                                                    (Npos (XI
+                                                                    (XI (XO
+                                                                    (XI (XI
+                                                                    (XO
+                                                                    XH)))))))
+                                                                    then 
+                                                                    op O
+                                                                    OK_LBrack
+                                                                    else 
+                                                                    if 
+                                                                    N.eqb b
+                                                                    (Npos (XI
+                                                                    (XO (XI
+                                                                    (XI (XI
+                                                                    (XO
+                                                                    XH)))))))
+                                                                    then 
+                                                                    op O
+                                                                    OK_RBrack
+                                                                    else 
+                                                                    if 
+                                                                    N.eqb b
+                                                                    (Npos (XI
+                                                                    (XO (XO
+                                                                    (XI (XO
+                                                                    XH))))))
+                                                                    then 
+                                                                    op O
+                                                                    OK_RParen
+                                                                    else 
+                                                                    if 
+                                                                    (||)
+                                                                    (N.eqb b
+                                                                    (Npos (XI
+                                                                    (XI (XI
+                                                                    (XO (XO
+                                                                    XH)))))))
+                                                                    (N.eqb b
+                                                                    (Npos (XI
+                                                                    (XI (XO
+                                                                    (XO (XO
+                                                                    XH)))))))
+                                                                    then 
+                                                                    tok
+                                                                    (text_literal
+                                                                    b t)
+                                                                    else 
+                                                                    if 
+                                                                    N.eqb b
+                                                                    (Npos (XO
+                                                                    (XI (XI
+                                                                    (XO (XO
+                                                                    XH))))))
+                                                                    then 
+                                                                    tok
+                                                                    (ampersand
+                                                                    t)
+                                                                    else 
+                                                                    if 
+                                                                    N.eqb b
+                                                                    (Npos (XI
+                                                                    (XO (XI
+                                                                    (XO (XO
+                                                                    XH))))))
+                                                                    then 
+                                                                    TOk
+                                                                    ((count_binary
+                                                                    t),
+                                                                    (RTT_NumberLiteral
+                                                                    NK_Binary))
+                                                                    else 
+                                                                    if 
+                                                                    N.eqb b
+                                                                    (Npos (XO
+                                                                    (XO (XI
+                                                                    (XO (XO
+                                                                    XH))))))
+                                                                    then 
+                                                                    TOk
+                                                                    ((count_hex
+                                                                    t),
+                                                                    (RTT_NumberLiteral
+                                                                    NK_Hex))
+                                                                    else 
+                                                                    if 
+                                                                    is_digit b
+                                                                    then 
+                                                                    TOk
+                                                                    ((dec_number_literal
+                                                                    t),
+                                                                    (RTT_NumberLiteral
+                                                                    NK_Decimal))
+                                                                    else 
+                                                                    if 
+                                                                    is_alpha b
+                                                                    then 
+                                                                    tok
+                                                                    (identifier_or_keyword
+                                                                    st b t)
+                                                                    else 
+                                                                    if 
+                                                                    N.eqb b
+                                                                    (Npos (XI
+                                                                    (XI (XI
+                                                                    (XI (XI
+                                                                    (XO
+                                                                    XH)))))))
+                                                                    then 
+                                                                    TOk
+                                                                    ((find_identifier_end
+                                                                    t),
+                                                                    RTT_Identifier)
+                                                                    else 
+                                                                    if 
+                                                                    N.leb
+                                                                    (Npos (XO
+                                                                    (XO (XO
+                                                                    (XO (XO
+                                                                    (XO (XO
+                                                                    XH))))))))
+                                                                    b
+                                                                    then 
+                                                                    TOk
+                                                                    ((unicode_identifier
+                                                                    t),
+                                                                    RTT_Identifier)
+                                                                    else 
+                                                                    TOk (O,
+                                                                    RTT_Unknown)
+
+(** val is_aAeE : byte -> bool **)
+
+let is_aAeE b =
+  (||)
+    ((||)
+      ((||) (N.eqb b (Npos (XI (XO (XO (XO (XO (XI XH))))))))
+        (N.eqb b (Npos (XI (XO (XO (XO (XO (XO XH)))))))))
+      (N.eqb b (Npos (XI (XO (XI (XO (XO (XI XH)))))))))
+    (N.eqb b (Npos (XI (XO (XI (XO (XO (XO XH))))))))
+
+(** val lex_token :
+    lstate -> bool -> byte -> bytes -> ((nat * rawTokenType) * bool) option **)
+
+let lex_token st nlb b t =
+  if st.ls_asm
+  then if N.eqb b (Npos (XO (XO (XO (XO (XO (XO XH)))))))
+       then Some (((asm_label t), RTT_Identifier), true)
+       else if N.eqb b (Npos (XO (XI (XO (XO (XO XH))))))
+            then let r = asm_text_literal t in Some (((fst r), (snd r)), true)
+            else if is_digit b
+                 then let r = asm_number_literal b t in
+                      Some (((fst r), (snd r)), true)
+                 else if is_aAeE b
+                      then Some (asm_identifier b t)
+                      else if is_alpha b
+                           then Some (((find_identifier_end t),
+                                  RTT_Identifier), true)
+                           else (match lex_common st nlb b t with
+                                 | TOk (n0, ty) -> Some ((n0, ty), true)
+                                 | TFuel -> None)
+  else (match lex_common st nlb b t with
+        | TOk (n0, ty) ->
+          Some ((n0, ty), (if is_alpha b then is_kw_asm ty else false))
+        | TFuel -> None)
+
+(** val init_state : lstate **)
+
+let init_state =
+  { ls_first = true; ls_asm = false; ls_prev = None }
+
+(** val lex_loop :
+    nat -> lstate -> bytes -> ((nat * nat) * rawTokenType) list option **)
+
+let rec lex_loop fuel st l =
+  match fuel with
+  | O -> None
+  | S f ->
+    let w = count_ws l in
+    (match skipn w l with
+     | [] -> Some (((w, O), RTT_Eof) :: [])
+     | b :: t ->
+       let nlb =
+         (||) (contains_byte (Npos (XO (XI (XO XH)))) (firstn w l))
+           st.ls_first
+       in
+       (match lex_token st nlb b t with
+        | Some p ->
+          let (p0, asm') = p in
+          let (n0, ty) = p0 in
+          let st' = { ls_first = false; ls_asm = asm'; ls_prev =
+            (if rawTokenType_is_comment_or_directive ty
+             then st.ls_prev
+             else Some ty) }
+          in
+          (match lex_loop f st' (skipn n0 t) with
+           | Some ts -> Some (((w, (S n0)), ty) :: ts)
+           | None -> None)
+        | None -> None))
+
+(** val lex : bytes -> ((nat * nat) * rawTokenType) list option **)
+
+let lex s =
+  lex_loop (S (length s)) init_state s
+
+(** val in_range : byte -> byte -> byte -> bool **)
+
+let in_range lo hi b =
+  (&&) (N.leb lo b) (N.leb b hi)
+
+(** val valid_utf8 : bytes -> bool **)
+
+let rec valid_utf8 = function
+| [] -> true
+| a :: t ->
+  if N.ltb a (Npos (XO (XO (XO (XO (XO (XO (XO XH))))))))
+  then valid_utf8 t
+  else (match t with
+        | [] -> false
+        | b :: t1 ->
+          if in_range (Npos (XO (XI (XO (XO (XO (XO (XI XH)))))))) (Npos (XI
+               (XI (XI (XI (XI (XO (XI XH)))))))) a
+          then (&&) (is_cont b) (valid_utf8 t1)
+          else (match t1 with
+                | [] -> false
+                | c :: t2 ->
+                  if in_range (Npos (XO (XO (XO (XO (XO (XI (XI XH))))))))
+                       (Npos (XI (XI (XI (XI (XO (XI (XI XH)))))))) a
+                  then (&&)
+                         ((&&)
+                           (if N.eqb a (Npos (XO (XO (XO (XO (XO (XI (XI
+                                 XH))))))))
+                            then in_range (Npos (XO (XO (XO (XO (XO (XI (XO
+                                   XH)))))))) (Npos (XI (XI (XI (XI (XI (XI
+                                   (XO XH)))))))) b
+                            else if N.eqb a (Npos (XI (XO (XI (XI (XO (XI (XI
+                                      XH))))))))
+                                 then in_range (Npos (XO (XO (XO (XO (XO (XO
+                                        (XO XH)))))))) (Npos (XI (XI (XI (XI
+                                        (XI (XO (XO XH)))))))) b
+                                 else is_cont b) (is_cont c)) (valid_utf8 t2)
+                  else (match t2 with
+                        | [] -> false
+                        | d :: t3 ->
+                          if in_range (Npos (XO (XO (XO (XO (XI (XI (XI
+                               XH)))))))) (Npos (XO (XO (XI (XO (XI (XI (XI
+                               XH)))))))) a
+                          then (&&)
+                                 ((&&)
+                                   ((&&)
+                                     (if N.eqb a (Npos (XO (XO (XO (XO (XI
+                                           (XI (XI XH))))))))
+                                      then in_range (Npos (XO (XO (XO (XO (XI
+                                             (XO (XO XH)))))))) (Npos (XI (XI
+                                             (XI (XI (XI (XI (XO XH)))))))) b
+                                      else if N.eqb a (Npos (XO (XO (XI (XO
+                                                (XI (XI (XI XH))))))))
+                                           then in_range (Npos (XO (XO (XO
+                                                  (XO (XO (XO (XO XH))))))))
+                                                  (Npos (XI (XI (XI (XI (XO
+                                                  (XO (XO XH)))))))) b
+                                           else is_cont b) (is_cont c))
+                                   (is_cont d)) (valid_utf8 t3)
+                          else false)))
+
+type action =
+| Keep
+| SetTo of n
+| Min1
+
+(** val apply_action : action -> n -> n **)
+
+let apply_action a v =
+  match a with
+  | Keep -> v
+  | SetTo n0 -> n0
+  | Min1 -> N.min (Npos XH) v
+
+(** val spaces_before : tokenType option -> n -> action **)
+
+let spaces_before prev spaces =
+  match prev with
+  | Some t ->
+    (match t with
+     | TT_Op k ->
+       (match k with
+        | OK_LessThan k0 ->
+          (match k0 with
+           | ChK_Generic -> SetTo N0
+           | ChK_Comp -> SetTo spaces)
+        | OK_LBrack -> SetTo N0
+        | OK_LParen -> SetTo N0
+        | _ -> SetTo spaces)
+     | _ -> SetTo spaces)
+  | None -> SetTo N0
+
+(** val spaces_after : tokenType option -> n -> action **)
+
+let spaces_after next spaces =
+  match next with
+  | Some t ->
+    (match t with
+     | TT_Op k ->
+       (match k with
+        | OK_GreaterThan k0 ->
+          (match k0 with
+           | ChK_Generic -> SetTo N0
+           | ChK_Comp -> SetTo spaces)
+        | OK_RBrack -> SetTo N0
+        | OK_RParen -> SetTo N0
+        | _ -> SetTo spaces)
+     | _ -> SetTo spaces)
+  | None -> SetTo spaces
+
+(** val one_space_either_side :
+    tokenType option -> tokenType option -> action * action **)
+
+let one_space_either_side prev next =
+  ((spaces_before prev (Npos XH)), (spaces_after next (Npos XH)))
+
+(** val one_space_before : tokenType option -> action * action **)
+
+let one_space_before prev =
+  ((spaces_before prev (Npos XH)), (SetTo N0))
+
+(** val max_one_either_side : tokenType option -> action * action **)
+
+let max_one_either_side next =
+  (Min1, (match next with
+          | Some _ -> Min1
+          | None -> Keep))
+
+(** val binary_op_spacing : action * action **)
+
+let binary_op_spacing =
+  ((SetTo (Npos XH)), (SetTo (Npos XH)))
+
+(** val space_operator :
+    operatorKind -> tokenType option -> tokenType option -> tokenType option
+    -> action * action **)
+
+let space_operator op0 prev next prev_real =
+  match op0 with
+  | OK_Plus ->
+    (match prev_real with
+     | Some t ->
+       (match t with
+        | TT_Op k ->
+          (match k with
+           | OK_GreaterThan k0 ->
+             (match k0 with
+              | ChK_Generic -> binary_op_spacing
+              | ChK_Comp -> (Keep, (SetTo N0)))
+           | OK_RBrack -> binary_op_spacing
+           | OK_RParen -> binary_op_spacing
+           | _ -> (Keep, (SetTo N0)))
+        | TT_Keyword k ->
+          (match k with
+           | KK_Inherited -> binary_op_spacing
+           | KK_Nil -> binary_op_spacing
+           | _ -> (Keep, (SetTo N0)))
+        | TT_ConditionalDirective _ -> (Keep, (SetTo N0))
+        | TT_CompilerDirective -> (Keep, (SetTo N0))
+        | TT_Comment _ -> (Keep, (SetTo N0))
+        | _ -> binary_op_spacing)
+     | None -> (Keep, (SetTo N0)))
+  | OK_Minus ->
+    (match prev_real with
+     | Some t ->
+       (match t with
+        | TT_Op k ->
+          (match k with
+           | OK_GreaterThan k0 ->
+             (match k0 with
+              | ChK_Generic -> binary_op_spacing
+              | ChK_Comp -> (Keep, (SetTo N0)))
+           | OK_RBrack -> binary_op_spacing
+           | OK_RParen -> binary_op_spacing
+           | _ -> (Keep, (SetTo N0)))
+        | TT_Keyword k ->
+          (match k with
+           | KK_Inherited -> binary_op_spacing
+           | KK_Nil -> binary_op_spacing
+           | _ -> (Keep, (SetTo N0)))
+        | TT_ConditionalDirective _ -> (Keep, (SetTo N0))
+        | TT_CompilerDirective -> (Keep, (SetTo N0))
+        | TT_Comment _ -> (Keep, (SetTo N0))
+        | _ -> binary_op_spacing)
+     | None -> (Keep, (SetTo N0)))
+  | OK_Comma -> ((SetTo N0), (SetTo (Npos XH)))
+  | OK_Semicolon -> ((SetTo N0), (SetTo (Npos XH)))
+  | OK_Colon -> ((SetTo N0), (SetTo (Npos XH)))
+  | OK_LessThan k ->
+    (match k with
+     | ChK_Generic -> ((SetTo N0), (SetTo N0))
+     | ChK_Comp -> binary_op_spacing)
+  | OK_GreaterThan k ->
+    (match k with
+     | ChK_Generic ->
+       ((SetTo N0),
+         (match next with
+          | Some t ->
+            (match t with
+             | TT_Op _ -> SetTo N0
+             | _ -> SetTo (Npos XH))
+          | None -> SetTo (Npos XH)))
+     | ChK_Comp -> binary_op_spacing)
+  | OK_LBrack ->
+    (match prev with
+     | Some t ->
+       (match t with
+        | TT_Identifier -> ((SetTo N0), (SetTo N0))
+        | TT_Keyword k ->
+          (match k with
+           | KK_Array -> ((SetTo N0), (SetTo N0))
+           | KK_Class -> ((SetTo N0), (SetTo N0))
+           | KK_Function -> ((SetTo N0), (SetTo N0))
+           | KK_Interface -> ((SetTo N0), (SetTo N0))
+           | KK_Procedure -> ((SetTo N0), (SetTo N0))
+           | KK_String -> ((SetTo N0), (SetTo N0))
+           | KK_Abstract -> ((SetTo N0), (SetTo N0))
+           | KK_Helper -> ((SetTo N0), (SetTo N0))
+           | KK_Sealed -> ((SetTo N0), (SetTo N0))
+           | _ -> ((SetTo (Npos XH)), (SetTo N0)))
+        | _ -> (Keep, (SetTo N0)))
+     | None -> (Keep, (SetTo N0)))
+  | OK_RBrack ->
+    (match next with
+     | Some t ->
+       (match t with
+        | TT_Identifier -> ((SetTo N0), (SetTo (Npos XH)))
+        | TT_Keyword _ -> ((SetTo N0), (SetTo (Npos XH)))
+        | _ -> ((SetTo N0), (SetTo N0)))
+     | None -> ((SetTo N0), (SetTo N0)))
+  | OK_LParen ->
+    (match prev with
+     | Some t ->
+       (match t with
+        | TT_Identifier -> ((SetTo N0), (SetTo N0))
+        | TT_Keyword k ->
+          (match k with
+           | KK_Array -> ((SetTo N0), (SetTo N0))
+           | KK_Class -> ((SetTo N0), (SetTo N0))
+           | KK_Function -> ((SetTo N0), (SetTo N0))
+           | KK_Interface -> ((SetTo N0), (SetTo N0))
+           | KK_Procedure -> ((SetTo N0), (SetTo N0))
+           | KK_String -> ((SetTo N0), (SetTo N0))
+           | KK_Abstract -> ((SetTo N0), (SetTo N0))
+           | KK_Helper -> ((SetTo N0), (SetTo N0))
+           | KK_Sealed -> ((SetTo N0), (SetTo N0))
+           | _ -> ((SetTo (Npos XH)), (SetTo N0)))
+        | _ -> (Keep, (SetTo N0)))
+     | None -> (Keep, (SetTo N0)))
+  | OK_RParen ->
+    (match next with
+     | Some t ->
+       (match t with
+        | TT_Identifier -> ((SetTo N0), (SetTo (Npos XH)))
+        | TT_Keyword _ -> ((SetTo N0), (SetTo (Npos XH)))
+        | _ -> ((SetTo N0), (SetTo N0)))
+     | None -> ((SetTo N0), (SetTo N0)))
+  | OK_Caret k ->
+    (match k with
+     | CaK_Type -> (Keep, (SetTo N0))
+     | CaK_Deref -> ((SetTo N0), (SetTo N0)))
+  | OK_AddressOf -> one_space_before prev
+  | OK_Dot -> ((SetTo N0), (SetTo N0))
+  | OK_DotDot -> ((SetTo N0), (SetTo N0))
+  | _ -> binary_op_spacing
+
+(** val rule :
+    tokenType option -> tokenType -> tokenType option -> tokenType option ->
+    action * action **)
+
+let rule prev cur next prev_real =
+  match cur with
+  | TT_Op op0 -> space_operator op0 prev next prev_real
+  | TT_Identifier -> (Keep, (SetTo (Npos XH)))
+  | TT_Keyword _ -> one_space_either_side prev next
+  | TT_ConditionalDirective _ -> one_space_either_side prev next
+  | TT_CompilerDirective -> one_space_either_side prev next
+  | TT_Comment k ->
+    (match k with
+     | CoK_InlineLine -> ((SetTo (Npos XH)), Keep)
+     | _ -> one_space_either_side prev next)
+  | _ -> max_one_either_side next
+
+(** val set_sp : fmt -> n -> fmt **)
+
+let set_sp f n0 =
+  { f_ignored = f.f_ignored; f_nl = f.f_nl; f_ind = f.f_ind; f_cont =
+    f.f_cont; f_sp = n0 }
+
+(** val ty_of : ftoken -> tokenType **)
+
+let ty_of p =
+  (fst p).t_ty
+
+(** val head_ty : ftoken list -> tokenType option **)
+
+let head_ty = function
+| [] -> None
+| p :: _ -> Some (ty_of p)
+
+(** val next_prev_real : tokenType option -> tokenType -> tokenType option **)
+
+let next_prev_real pr ty =
+  if tokenType_is_comment_or_directive ty then pr else Some ty
+
+(** val spacing_go :
+    tokenType option -> tokenType option -> action -> ftoken list -> ftoken
+    list **)
+
+let rec spacing_go prev prev_real pend = function
+| [] -> []
+| p :: r ->
+  let ty = ty_of p in
+  let f = snd p in
+  let v1 = if is_eof ty then f.f_sp else apply_action pend f.f_sp in
+  let ba = rule prev ty (head_ty r) prev_real in
+  ((fst p),
+  (set_sp f (apply_action (fst ba) v1))) :: (spacing_go (Some ty)
+                                              (next_prev_real prev_real ty)
+                                              (snd ba) r)
+
+(** val zero_first : ftoken list -> ftoken list **)
+
+let zero_first = function
+| [] -> []
+| p :: r -> ((fst p), (set_sp (snd p) N0)) :: r
+
+(** val token_spacing : ftoken list -> ftoken list **)
+
+let token_spacing l =
+  zero_first (spacing_go None None Keep l)
+
+(** val after_of : tokenType -> tokenType -> tokenType option -> action **)
+
+let after_of tl0 tr pr_l =
+  snd (rule None tl0 (Some tr) pr_l)
+
+(** val before_of : tokenType -> tokenType -> tokenType option -> action **)
+
+let before_of tl0 tr pr_l =
+  fst (rule (Some tl0) tr None (next_prev_real pr_l tl0))
+
+(** val gap_fn : tokenType -> tokenType -> tokenType option -> n -> n **)
+
+let gap_fn tl0 tr pr_l orig =
+  apply_action (before_of tl0 tr pr_l)
+    (if is_eof tr then orig else apply_action (after_of tl0 tr pr_l) orig)
+
+(** val keeps_orig : tokenType -> tokenType -> tokenType option -> bool **)
+
+let keeps_orig tl0 tr pr_l =
+  match before_of tl0 tr pr_l with
+  | Keep ->
+    (||) (is_eof tr)
+      (match after_of tl0 tr pr_l with
+       | Keep -> true
+       | _ -> false)
+  | _ -> false
+
+(** val reads_orig : tokenType -> tokenType -> tokenType option -> bool **)
+
+let reads_orig tl0 tr pr_l =
+  match before_of tl0 tr pr_l with
+  | SetTo _ -> false
+  | _ ->
+    (||) (is_eof tr)
+      (match after_of tl0 tr pr_l with
+       | SetTo _ -> false
+       | _ -> true)
+
+(** val starts_wordish : tokenType -> bool **)
+
+let starts_wordish = function
+| TT_Identifier -> true
+| TT_Keyword _ -> true
+| TT_NumberLiteral _ -> true
+| _ -> false
+
+(** val glue_safe : tokenType -> tokenType -> bool **)
+
+let glue_safe tl0 tr = match tr with
+| TT_Eof -> negb (is_eof tl0)
+| _ ->
+  (match tl0 with
+   | TT_Op k ->
+     (match k with
+      | OK_Slash ->
+        (match tr with
+         | TT_Op k0 -> (match k0 with
+                        | OK_Slash -> false
+                        | _ -> true)
+         | TT_Comment k0 ->
+           (match k0 with
+            | CoK_InlineLine -> false
+            | CoK_IndividualLine -> false
+            | _ -> true)
+         | _ -> true)
+      | OK_Colon ->
+        (match tr with
+         | TT_Op k0 -> (match k0 with
+                        | OK_Equal _ -> false
+                        | _ -> true)
+         | _ -> true)
+      | OK_LessThan _ ->
+        (match tr with
+         | TT_Op k0 ->
+           (match k0 with
+            | OK_Equal _ -> false
+            | OK_GreaterThan _ -> false
+            | OK_GreaterEqual -> false
+            | _ -> true)
+         | _ -> true)
+      | OK_GreaterThan _ ->
+        (match tr with
+         | TT_Op k0 -> (match k0 with
+                        | OK_Equal _ -> false
+                        | _ -> true)
+         | _ -> true)
+      | OK_LParen ->
+        (match tr with
+         | TT_Op k0 ->
+           (match k0 with
+            | OK_Star -> false
+            | OK_RBrack -> false
+            | OK_Dot -> false
+            | OK_DotDot -> false
+            | _ -> true)
+         | _ -> true)
+      | OK_Dot ->
+        (match tr with
+         | TT_Op k0 ->
+           (match k0 with
+            | OK_RBrack -> false
+            | OK_RParen -> false
+            | OK_Dot -> false
+            | OK_DotDot -> false
+            | _ -> true)
+         | TT_NumberLiteral _ -> false
+         | _ -> true)
+      | _ -> true)
+   | TT_Identifier ->
+     (match tr with
+      | TT_Op k ->
+        (match k with
+         | OK_AddressOf -> false
+         | _ -> negb (starts_wordish tr))
+      | _ -> negb (starts_wordish tr))
+   | TT_Keyword _ -> negb (starts_wordish tr)
+   | TT_TextLiteral k ->
+     (match k with
+      | TK_Unterminated -> false
+      | _ ->
+        (match tr with
+         | TT_TextLiteral _ -> false
+         | _ -> negb (starts_wordish tr)))
+   | TT_NumberLiteral k ->
+     (match k with
+      | NK_Decimal ->
+        (match tr with
+         | TT_Op k0 ->
+           (match k0 with
+            | OK_Plus -> false
+            | OK_Minus -> false
+            | _ -> negb (starts_wordish tr))
+         | _ -> negb (starts_wordish tr))
+      | _ -> negb (starts_wordish tr))
+   | TT_Comment k ->
+     (match k with
+      | CoK_InlineLine -> false
+      | CoK_IndividualLine -> false
+      | _ -> true)
+   | TT_Eof -> false
+   | TT_Unknown ->
+     (match tr with
+      | TT_Unknown -> false
+      | _ -> negb (starts_wordish tr))
+   | _ -> true)
+
+(** val u16_sat : n -> n **)
+
+let u16_sat n0 =
+  N.min (Npos (XI (XI (XI (XI (XI (XI (XI (XI (XI (XI (XI (XI (XI (XI (XI
+    XH)))))))))))))))) n0
+
+(** val count_lf0 : bytes -> n **)
+
+let count_lf0 ws =
+  N.of_nat (length (filter (N.eqb (Npos (XO (XI (XO XH))))) ws))
+
+(** val take_until_lf : bytes -> bytes **)
+
+let rec take_until_lf = function
+| [] -> []
+| b :: t ->
+  if N.eqb b (Npos (XO (XI (XO XH)))) then [] else b :: (take_until_lf t)
+
+(** val after_last_lf : bytes -> bytes **)
+
+let after_last_lf ws =
+  rev (take_until_lf (rev ws))
+
+(** val drop_trailing_cr_rev : bytes -> bytes **)
+
+let rec drop_trailing_cr_rev r = match r with
+| [] -> []
+| b :: t ->
+  if N.eqb b (Npos (XI (XO (XI XH)))) then drop_trailing_cr_rev t else r
+
+(** val trim_end_cr : bytes -> bytes **)
+
+let trim_end_cr l =
+  rev (drop_trailing_cr_rev (rev l))
+
+(** val ws_prefix_len : bytes -> nat **)
+
+let rec ws_prefix_len = function
+| [] -> O
+| a :: t ->
+  if (||)
+       ((&&) (N.leb (Npos (XI (XO (XO XH)))) a)
+         (N.leb a (Npos (XI (XO (XI XH))))))
+       (N.eqb a (Npos (XO (XO (XO (XO (XO XH)))))))
+  then S (ws_prefix_len t)
+  else (match t with
+        | [] -> O
+        | b :: l0 ->
+          (match l0 with
+           | [] -> O
+           | c :: t' ->
+             if (&&)
+                  ((&&)
+                    (N.eqb a (Npos (XI (XI (XO (XO (XO (XI (XI XH)))))))))
+                    (N.eqb b (Npos (XO (XO (XO (XO (XO (XO (XO XH))))))))))
+                  (N.eqb c (Npos (XO (XO (XO (XO (XO (XO (XO XH)))))))))
+             then S (S (S (ws_prefix_len t')))
+             else O))
+
+(** val fmt_of_ws : bytes -> bool -> fmt **)
+
+let fmt_of_ws ws ignored =
+  let last_line = trim_end_cr (after_last_lf ws) in
+  { f_ignored = ignored; f_nl = (u16_sat (count_lf0 ws)); f_ind = N0;
+  f_cont = N0; f_sp = (u16_sat (N.of_nat (ws_prefix_len last_line))) }
 
 module MLStringJoin =
  struct
